@@ -12,1337 +12,2618 @@ Definition show_fres (r : fres) : string :=
   end.
 Definition check (rs : list rune) : string := digest (show_fres (format_res rs)).
 Definition full (rs : list rune) : string := show_fres (format_res rs).
-Eval vm_compute in ("<<<M1874>>>" ++ check (runes_of_ascii "// top
-
-options 	 // c0
-	{// c1a
-// c1b
-	StringPrefixLenType// c2
-  =// c3
-    	u16 
-	    // c4
-
-;
-	ArrayPrefixLenType 	 // c6a
-
-	// c6b
-=u8	// c8a
-      // c8b
-  ; FixedStringPadFromLeft  =
-	    // c11
-	true	// c12
-      ;FixedStringPadChar 	 // c14
-    = // c15a
-	// c15b
-
-	' '
-; 
-	    // c17
-	}
-    // c18
-
-	packet
-        // c19
-  Quote// c20a
-
-// c20b
-	{  int64 
-
-// c22
-
-OrderId 
-    // c23
-		,
-    // c24
-	  char[]	// c25
-
-	Ref
-    // c26
-    ,
-
-@leftPad 
-('0'	// c30
-)	// c31a
-
-// c31b
-    char[ 	 // c32
-	5
-	] 
-    // c34
-	price // c35
-,// c36
-	}  // c37
-  packet
-	Heartbeat
-{// c40
-	  zchar[ // c41
-	  3
-]
-    venue 	 // c44a
-  // c44b
-	, string// c46a
-    // c46b
-  Flags// c47a
-	// c47b
-	,	// c48
-}	// c49a
-  // c49b
-  packet 	 // c50
-
-Trade
-// c51
-{
-
-    repeat 
-	// c53
-InTag787
-	{// c55a
-    // c55b
-	i32
-
-// c56
-  venue	// c57
-, 	 // c58
-    char[ // c59
-	5 
-	// c60
-    	] sym	// c62
-    ,
-        // c63
-	repeat 
-	    // c64
-InPx98 
-    // c65
-	{  // c66
-char[ // c67
-
-	11
-	    // c68
-  ] 
-    // c69
-      Qty 
-	// c70
-    , // c71
-
-Heartbeat// c72a
-	  // c72b
-
-, // c73a
-// c73b
-    char[] 
-// c74
-
-	price 
-      // c75
-      , // c76
-		u32
-    // c77
-	x
-// c78
-	,float64 
-        // c80
-  count // c81
-
-, 
-
-    // c82
-  	repeat Quote 
-    // c84
-      , 
-
-// c85
-    },
-zchar[ 
-
-    // c88
-7
-] 	 // c90a
-  // c90b
-  Note 
-
-// c91
-
-  , repeat 	 // c93a
-// c93b
-	  char[ 	 // c94a
-    	// c94b
-
-	1
-] 	 // c96a
-	// c96b
-  	Tail  // c97
-	, 
-
-    // c98
-    	}  
-      // c99
-	, // c100
-		repeat // c101
-  char[ 	 // c102
-2 ]
-seqNo
-, 	 // c106
-	  InTail55 {  // c108a
-	// c108b
-
-	repeat 
-      // c109
-Quote	// c110
-	,string // c112a
-	// c112b
-
-  msgKind 
-// c113
-	, 
-
-// c114
-  InPx18  // c115a
-
-  // c115b
-  {  // c116
-    char[] count 	 // c118
-,repeat	Quote  // c121
-
+Eval vm_compute in ("<<<M991>>>" ++ check (runes_of_ascii "options {options1 =true
+roots =
+'\x00' ; } packet uint8x {zchar[
+3
+] MetaDataX
+`tab	here`
 ,
-uint16	// c123a
-
-	// c123b
-Qty// c124a
-  // c124b
-	  ,// c125a
-    	// c125b
-  	}	// c126a
-    	// c126b
-
-, 	 // c127
-  char[ // c128a
-// c128b
-      4 // c129a
-    	// c129b
-
-]// c130
-    seqNo
-    // c131
-,	// c132
-	repeat  // c133
-
-Heartbeat// c134a
-
-  // c134b
-    	, 	 // c135a
-
-	// c135b
-      repeat  
-  // c136
-    string
-
-sym  // c138a
-	// c138b
-	,
-// c139
-  }	, // c141
-repeat// c142a
-	// c142b
-	  Quote 
-,
-
-Heartbeat // c145a
-    	// c145b
-  , 
-
-    // c146
-
-@leftPad
-
-    // c147
-    (// c148
-' ' ) 	 // c150a
-	// c150b
-	char[ 	 // c151
-      10 ] 	 // c153a
-
-  // c153b
-  OrderId ,
-        // c155
-}	// c156a
-  // c156b
-root 
-    // c157
-	packet // c158
-    Fill{ 	 // c160a
-// c160b
-Heartbeat	// c161
-	,uint32  // c163a
-      // c163b
-      count  ,// c165
-u8 	 // c166a
-	// c166b
-    OrderId 
-    // c167
-,	// c168
-  match	// c169
-  OrderId
-
-as// c171a
-
-	// c171b
-		Body // c172a
-
-	// c172b
-
-	{
-	96  // c174a
-	// c174b
-: Quote  // c176a
-	// c176b
-  , 
-      // c177
-
-195 
-    // c178
-	:  // c179
-    Trade
-	, // c181
-187 // c182
-  	:  // c183
-
-Heartbeat ,// c185a
-
-// c185b
-	}// c186a
-  // c186b
-  ,
-// c187
-	  u32 venue@calculatedFrom( 	 // c190
-	""CRC32"" 
-) // c192
-
-,	}// c194")).
-Eval vm_compute in ("<<<M1627>>>" ++ check (runes_of_ascii "options {
-    // c1a
-    // c1b
-    LittleEndian = true;
-    StringPrefixLenType = u16;
-    ArrayPrefixLenType = u8;// c13
-    FixedStringPadChar = '0';
-    // c17
-}// c18a
-
-// c18b
-packet Logout {
-    // c21
-    repeat i16 f1,
-    // c25
-    string Ref,// c28a
-    // c28b
-    @rightPad('\x00')
-    char[9] Tail,
-    repeat char[6] Flags,
-    // c43
-    repeat char[3] Acct,
-    // c49
-}
-
-// c50
-packet Party {
-    // c53a
-    // c53b
-    char[2] f1,
-    u8 Side2,// c61
-    @leftPad(' ')
-    // c65
-    char[1] venue,// c70
-}// c71a
-
-// c71b
-packet Order {
-    // c74
-    repeat i64 Ref,
-    InPx62 {
-        // c80a
-        // c80b
-        i32 OrderId,// c83
-    },
-    InNote53 {
-        // c87
-        InClordid80 {
-            char[] Acct,
-            // c92
-            u32 Px,// c95
-            repeat Party,// c98a
-            // c98b
-        },// c100
-        InPrice12 {
-            // c102
-            u8 pad0,
-        },// c107a
-        // c107b
-        repeat Logout,
-        InFlags23 {
-            // c112a
-            // c112b
-            repeat string seqNo,
-            // c116
-            string sym,// c119
-            int8 Flags,
-            // c122
-            zchar[5] lastPx,
-            zchar[6] Px,// c132a
-            // c132b
-        },
-        // c134
-        char[10] Acct,
-        InPx18 {
-            // c141
-            zchar[2] count,// c146
-            Party,// c148a
-            // c148b
-        },// c150a
-        // c150b
-    },// c152
-    char[5] Side2,// c157a
-    // c157b
-    char[1] Acct,
-}// c163a
-
-// c163b
-root packet Ack {
-    // c167
-    u32 Tail,
-    repeat char[4] msgKind,// c176a
-    // c176b
-    repeat Logout,
-    // c179
-}
-// c180")).
-Eval vm_compute in ("<<<M134>>>" ++ check (runes_of_ascii "packet As { options1
-    { i16 o , } , i64 roots ,repeat char[] o
-    `a\` , @calculatedFrom( ""1""//x
-)  repeatCount	@lengthOf(/// triple
-falsey /// triple
-)
-// packet A { u8 x, }
+@lengthOf(T
+    )
+    // `tick` ""quote"" 'q'
+    char[]  A @calculatedFrom(
+    // `tick` ""quote"" 'q'
+    ""abc"" ) `
+`,
+@rightPad(	' '  )
+    //x
+    @rightPad ( ) @calculatedFrom( ""`tick`"")
+char[]
+    // 50% %s
+    body ,
+    @leftPad ('0'	)
+repeat u8x {
+    int { match MetaDataX
+as As {
+// " ++ [27880; 37322]%N ++ runes_of_ascii "
 // " ++ [128512]%N ++ runes_of_ascii " emoji
-`a\` ,
-@lengthOf( stringy ) char[]	As
-`" ++ [233]%N ++ runes_of_ascii "` ,
-asx {match msg_type as
-chars { //	t
-00: metadata
-    // `tick` ""quote"" 'q'
-    , }
-    , i8 pack// c
-@calculatedFrom(
-    /// triple
-    ""x y"" )
-// trailing space 
-// a // b
-,//	t
-match u8x as	rootA{
-""1"": a1
-, [
-    // packet A { u8 x, }
-    4294967296 ]
-:msg_type
-//
-//x
-,
-}
-, } // a // b
-, @calculatedFrom(
-""" ++ [233]%N ++ runes_of_ascii "t" ++ [233]%N ++ runes_of_ascii """ ) int16 roots ,
-    @tag(1 )	@leftPad ( '0' ) @rightPad // " ++ [27880; 37322]%N ++ runes_of_ascii "
-( '\x00'
-)i32 asx `tab	here`	,char Logon `u8 x,` // trailing space 
-,  }
-root	packet string_ {// @lengthOf(
-}packet Z9_ { int8 _x
-, repeat u8 uint8x `" ++ [233]%N ++ runes_of_ascii "`
-,
-float64 x_y_z @calculatedFrom(	""x y"" )
-    , @calculatedFrom(	""a\""b"" ) @calculatedFrom( ""a\""b"" )
-    int
-{zchar[255
-] //
-msg_type,  i64_
-    // trailing space 
-    {
-    stringy @lengthOf(x_y_z )
-    , u
-    options1
-    //
-    `tab	here` ,
-char[0123456789 ] msg_type ,float32
-    Foo `{ , }`
-    , } , } ,  @tag(	0
-)
-    @calculatedFrom( ""CRC32"" ) charz , @tag(
-    // @lengthOf(
-    4294967296 )
-i64 packetx ,  } //	t")).
-Eval vm_compute in ("<<<M153>>>" ++ check (runes_of_ascii "options
-// packet A { u8 x, }
-/// triple
-{	}MetaData	zchar// @lengthOf(
-{
-    A i64_
-`crlf
-line` , char[]string_ `
-` , Packet
-stringy `a\` , // `tick` ""quote"" 'q'
-char[ 1] i8i8 // @lengthOf(
-,float32
-options1 `{ , }` ,} packet
-    a1{@lengthOf( o ) //x
-o { calculatedFrom @calculatedFrom(
-    //x
-    ""a\\""
-) , } , @lengthOf(
-a1) repeat i8i8
-    stringy ,int8	pack , @lengthOf( u8x
-    ) string
-packetx @calculatedFrom( ""`tick`"" ) `` , @lengthOf( Header ) @tag( 0123456789 ) @calculatedFrom(
-""CRC32"" ) repeat BodyLength `two words` , @lengthOf( T)  zchar[ 1//
-] repeatCount@lengthOf( o	) ,
-    match // " ++ [128512]%N ++ runes_of_ascii " emoji
-As as options1 { ""1"":
-    o, ""a\\"": crc
-,[ 0123456789, ""a	b"" // `tick` ""quote"" 'q'
-, """ ++ [128512]%N ++ runes_of_ascii """ ,	65535
-, """ ++ [128512]%N ++ runes_of_ascii """
-    // `tick` ""quote"" 'q'
-    ,  ""1""	,
-00 ] : x , [ ""abc""	,
-""\n""
-, 4294967296 ,
-10 ,
-    //x
-    0123456789
-,	42 , """ ++ [128512]%N ++ runes_of_ascii """, 3 ] :
-    // " ++ [128512]%N ++ runes_of_ascii " emoji
-    msg_type } , match
-u8x as
-lengthOf
-    { [""x y"" , ""{,}""// a // b
-] :	asx // `tick` ""quote"" 'q'
-4294967296  : chars,
-    ""CRC32"" : a1 ""a	b"" :metadata ,  7 : zchar  , }
-, }")).
-Eval vm_compute in ("<<<M1566>>>" ++ check (runes_of_ascii "options {
-    LittleEndian = false;
-    FixedStringPadFromLeft = false;
-    FixedStringPadChar = ' ';
-}
-packet Fill {
-    uint16 Qty,
-    uint64 clOrdID,
-    repeat i64 Flags,
-}
-packet Ack {
-    zchar[7] clOrdID,
-    u64 lastPx,
-    char[] Note,
-    repeat Fill,
-    int32 count,
-}
-packet Quote {
-    u8 venue,
-    InRef40 {
-        char[] Qty,
-    },
-    zchar[5] Flags,
-    @rightPad('\x00') char[12] msgKind,
-}
-packet Logout {
-    InSym79 {
-        int32 Qty,
-        Fill,
-        char[3] x,
-        repeat InNote29 {
-            i16 price,
-            Ack,
-            f64 x,
-            zchar[8] count,
-        },
-    },
-}
-root packet Logon {
-    zchar[1] sym,
-    u32 count,
-    u16 tag7 @lengthOf(Body),
-    match count as Body {
-        [122, 152] : Ack,
-        118 : Logout,
-        61 : Quote,
-        161 : Fill,
-    },
-    u32 Acct @calculatedFrom(""CR\
-C32""),
-}
-")).
-Eval vm_compute in ("<<<M1765>>>" ++ check (runes_of_ascii "  packet	zchar{ BodyLength  x // `tick` ""quote"" 'q'
-	, // trailing space 
-	  @rightPad
-
-    ( '0' 
-) match _x  as
-
-    x
-{  [
-""" ++ [128512]%N ++ runes_of_ascii """
-]
-: falsey
-,	65535 :chars
-0
-
-    :
-    falsey, [
-    ""packet""
-]
-
-    :  // c
-    metadata  0
-: 
-repeatCount  , 00//
-		:	packetx 
-, }  , }packet crc 
-{	match 
-body 
-    //x
-//x
-as 
-len{ 7
-    :
-leftPad
-, 007
-:x_y_z ,00 :
-	x_y_z , [ 0
-
-,  10 
-,
-10
-
-, 	 //	t
-      10 ]
-    :
-calculatedFrom// packet A { u8 x, }
-  ,""packet""
-:calculatedFrom
-
-    },
-
-    @leftPad (
-'0')
-    @tag( 
-4294967296
-
-)match
-u128 // c
-  	as
-	trueish
-
-    {
-	3 :
-i64_
-
-    , } ,
-
-char[
-
-255
-	]  o
-	@lengthOf(	leftPad )  `u8 x,` 
-,	} MetaData o
-{ float roots ,	x_y_z 
-MetaDataX 
-, packetx zchar , }
-")).
-Eval vm_compute in ("<<<M1648>>>" ++ check (runes_of_ascii "
-
-  root
-	packet
-
-i8i8 
-{ BodyLength
-
-    `" ++ [28040; 24687; 31867; 22411]%N ++ runes_of_ascii "`
-,
-
-    Header
-, 
-int16
-	len @lengthOf( 
-msg_type
-) `
-`  ,
-
-@leftPad  /// triple
-	( ' '	/// triple
-    	)
-@rightPad 	 // " ++ [27880; 37322]%N ++ runes_of_ascii "
-      (	// a // b
-) 	 // trailing space 
-  	@calculatedFrom( ""x y""  )
-	repeatCount 	 // @lengthOf(
-  @calculatedFrom(	/// triple
-
-	""packet"")
-
-`crlf
-line`,
-    @lengthOf(
-    falsey)
-
-roots @lengthOf(
-
-metadata  )
-	`line1
-line2`
-
-,	i8  i64_
-,
-    @tag(4294967296
-    )	@tag(3
-
-)  repeat
+[
+""a\\"" ,  4294967296 ] : u128""\" ++ [233]%N ++ runes_of_ascii """
+    : i8i8 ,	} , } ,	} , i8i8 `" ++ [233]%N ++ runes_of_ascii "` ,repeat
 zchar[
-    1
-]
-lengthOf ,	@lengthOf( Logon 
-  // `tick` ""quote"" 'q'
-	// `tick` ""quote"" 'q'
-)
-repeat asx
-{ stringy	float	`line1
-line2`	,
-Pad
-	,	}
-,
-
-    }
-")).
-Eval vm_compute in ("<<<M33>>>" ++ check (runes_of_ascii "root/// triple
-packet int{
-f32 i8i8 , uint8x /// triple
-zchar
-    `// not a comment`// a // b
-,
-    u64 u8x @lengthOf( u ) ,char[] i64_@lengthOf( crc
-    ), @lengthOf( packetx
-    )metadata i64_
-, } packet a1	{ zchar[ 65535
-] float, zchar[ 00
-    //	t
-    ]
-    matchKey
-,
-} options { crc =u64 } MetaData leftPad { trueish string_ ,  uint64 Header
-`" ++ [28040; 24687; 31867; 22411]%N ++ runes_of_ascii "` , }
-    // " ++ [128512]%N ++ runes_of_ascii " emoji
-    MetaData//x
-tag { zchar
-chars
-// " ++ [27880; 37322]%N ++ runes_of_ascii "
-//x
-,  repeatCount  lengthOf`
-` , i16
-u /// triple
-`tab	here` , lengthOf
-a1 ,u16 o
-    , char
-i64_  `two words` , }
-//x
-")).
-Eval vm_compute in ("<<<M223>>>" ++ check (runes_of_ascii "
-root packet // a // b
-matchKey
-    { @calculatedFrom(
-""// no comment"")match matchKey as crc { 65535:metadata , 255 :options1 , ""{,}"" :asx
-,
-    [ ""\" ++ [233]%N ++ runes_of_ascii """ , 00
-,	""""  , /// triple
-""{,}"" ,
-""a\\"" ]
-    : msg_type , 007: f32a ,//x
-} , @lengthOf(
-repeatCount) @leftPad ()
-    @calculatedFrom(  ""a\\"")float ,@tag( 42 ) u8 crc @calculatedFrom( //
-""" ++ [28040; 24687]%N ++ runes_of_ascii """// " ++ [27880; 37322]%N ++ runes_of_ascii "
-)
-, uint64
-BodyLength @lengthOf( f32a)
-    `" ++ [28040; 24687; 31867; 22411]%N ++ runes_of_ascii "` , tag a1 ,
-tag @calculatedFrom( ""`tick`""
-), } // trailing space ")).
-Eval vm_compute in ("<<<M1433>>>" ++ check (runes_of_ascii "// top
-packet
-    // c0
-float
-    // c1
-{
-    // c2
-repeat
-    // c3
-i8i8
-    // c4
-MetaDataX
-    // c5
-`it's`
-    // c6
-,
-    // c7
-rootA
-    // c8
-,
-    // c9
-repeat
-    // c10
-int8
-    // c11
-int
-    // c12
-,
-    // c13
-match
-    // c14
-repeatCount
-    // c15
-as
-    // c16
-x_y_z
-    // c17
-{
-    // c18
-""{,}""
-    // c19
-:
-    // c20
-Logon
-    // c21
-,
-    // c22
-}
-    // c23
-,
-    // c24
-}
-    // c25
-")).
-Eval vm_compute in ("<<<M309>>>" ++ check (runes_of_ascii "options // " ++ [27880; 37322]%N ++ runes_of_ascii "
-{charz
-    =
-/// triple
-/// triple
-int64 chars // trailing space 
-=
-65535
-// " ++ [27880; 37322]%N ++ runes_of_ascii "
+4294967296] charz , match
+trueish
+as uint8x
+{ [ 7 ,
+""" ++ [128512]%N ++ runes_of_ascii """
+    ,	3 , 4294967296 ,0123456789
+] :
+    msg_type
+    ""`tick`"": asx
+    ,	[
+255 ,
+""a\""b""
+    ] : options1 // a // b
+, [ 4294967296,
+    ""// no comment""
+    ,
+    ""a	b"" ]: falsey
 // a // b
-zchar =
-'\x00'MetaDataX// a // b
-=	0123456789
-roots
+/// triple
+, } , @rightPad (
+// " ++ [128512]%N ++ runes_of_ascii " emoji
+// " ++ [27880; 37322]%N ++ runes_of_ascii "
+'\x00' )
+i8 o , match o
+as u128  { [ ""CRC32"" //	t
+, 42 , """ ++ [128512]%N ++ runes_of_ascii """ , ""\" ++ [233]%N ++ runes_of_ascii """,
 // trailing space 
-// " ++ [27880; 37322]%N ++ runes_of_ascii "
-= """" } options {crc // c
-=""" ++ [28040; 24687]%N ++ runes_of_ascii """
-    ;
-    } MetaData	float {
-    zchar[ 42
-// `tick` ""quote"" 'q'
-//
-]
-leftPad
-    `line1
-line2` ,
-i64_ u,float32 // packet A { u8 x, }
-A`" ++ [28040; 24687; 31867; 22411]%N ++ runes_of_ascii "` , }")).
-Eval vm_compute in ("<<<M1472>>>" ++ check (runes_of_ascii "// top
-options // c0a
-  // c0b
-{ // c1a
-  // c1b
-LittleEndian // c2
-=
-    // c3
-true
-    // c4
-; // c5
-}
-    // c6
-root
-    // c7
-packet // c8a
-  // c8b
-P // c9
-{ u16 a
-    // c12
-, // c13a
-  // c13b
-u32 Sum // c15
-@calculatedFrom(
-    // c16
-""CRC32"" // c17
-) // c18a
-  // c18b
-, // c19a
-  // c19b
-} // c20a
-  // c20b
-")).
-Eval vm_compute in ("<<<M539>>>" ++ check (runes_of_ascii "root packet tag { }  packet MetaDataX{char[007	]
-// c
-/// triple
-asx  @calculatedFrom( @calculatedFrom( ""a\""b""
-) `say ""hi""`// " ++ [27880; 37322]%N ++ runes_of_ascii "
-,  @tag(4294967296 )
-    char[1//x
-] packetx @calculatedFrom(""a\""b""
-    ) ,
-// " ++ [128512]%N ++ runes_of_ascii " emoji
-// a // b
-@calculatedFrom(""" ++ [233]%N ++ runes_of_ascii "t" ++ [233]%N ++ runes_of_ascii """  ) repeat pack // " ++ [27880; 37322]%N ++ runes_of_ascii "
+//x
+""x y"" ,
+00 ,
+""" ++ [128512]%N ++ runes_of_ascii """	, 00 ]
+    :
+    x , ""x y"" : MetaDataX
 ,
-    } // c")).
-Eval vm_compute in ("<<<M92>>>" ++ check (runes_of_ascii "options
-    {
-    u8x =zchar[ 42 ] ;
-roots = """ ++ [233]%N ++ runes_of_ascii "t" ++ [233]%N ++ runes_of_ascii """	; calculatedFrom
-= '0' As =
-    ""packet"" ; } options	{falsey=  10
-    ; A=
-// c
-// packet A { u8 x, }
-'\x00' ; leftPad// c
-=	""" ++ [233]%N ++ runes_of_ascii "t" ++ [233]%N ++ runes_of_ascii """
-    ;
-    crc
-//	t
-// c
-= u16
-// `tick` ""quote"" 'q'
-// @lengthOf(
-;As
-= 255 } /// triple")).
-Eval vm_compute in ("<<<M614>>>" ++ check (runes_of_ascii "root packet tag { }  packet MetaDataX{char[007	]
-// c
-/// triple
-asx  @calculatedFrom( ""a\""b""
-) `say ""hi""`// " ++ [27880; 37322]%N ++ runes_of_ascii "
-,  @tag(4294967296 )
-    char[1//x
-] packetx @calculatedFrom(""a\""b""
-    ) , ,
-// " ++ [128512]%N ++ runes_of_ascii " emoji
-// a // b
-@calculatedFrom(""" ++ [233]%N ++ runes_of_ascii "t" ++ [233]%N ++ runes_of_ascii """  ) repeat pack // " ++ [27880; 37322]%N ++ runes_of_ascii "
-,
-    } // c")).
-Eval vm_compute in ("<<<M481>>>" ++ check (runes_of_ascii "packet root tag { }  packet MetaDataX{char[007	]
-// c
-/// triple
-asx  @calculatedFrom( ""a\""b""
-) `say ""hi""`// " ++ [27880; 37322]%N ++ runes_of_ascii "
-,  @tag(4294967296 )
-    char[1//x
-] packetx @calculatedFrom(""a\""b""
-    ) ,
-// " ++ [128512]%N ++ runes_of_ascii " emoji
-// a // b
-@calculatedFrom(""" ++ [233]%N ++ runes_of_ascii "t" ++ [233]%N ++ runes_of_ascii """  ) repeat pack // " ++ [27880; 37322]%N ++ runes_of_ascii "
-,
-    } // c")).
-Eval vm_compute in ("<<<M645>>>" ++ check (runes_of_ascii "root packet tag { }  packet MetaDataX{char[007	]
-// c
-/// triple
-asx  @calculatedFrom( ""a\""b""
-) `say ""hi""`// " ++ [27880; 37322]%N ++ runes_of_ascii "
-,  @tag(4294967296 )
-    char[1//x
-] packetx @calculatedFrom(""a\""b""
-    ) ,
-// " ++ [128512]%N ++ runes_of_ascii " emoji
-// a // b
-@calculatedFrom(""" ++ [233]%N ++ runes_of_ascii "t" ++ [233]%N ++ runes_of_ascii """  ) repeat pack // " ++ [27880; 37322]%N ++ runes_of_ascii "
-}
-    , // c")).
-Eval vm_compute in ("<<<M479>>>" ++ check (runes_of_ascii " packet tag { }  packet MetaDataX{char[007	]
-// c
-/// triple
-asx  @calculatedFrom( ""a\""b""
-) `say ""hi""`// " ++ [27880; 37322]%N ++ runes_of_ascii "
-,  @tag(4294967296 )
-    char[1//x
-] packetx @calculatedFrom(""a\""b""
-    ) ,
-// " ++ [128512]%N ++ runes_of_ascii " emoji
-// a // b
-@calculatedFrom(""" ++ [233]%N ++ runes_of_ascii "t" ++ [233]%N ++ runes_of_ascii """  ) repeat pack // " ++ [27880; 37322]%N ++ runes_of_ascii "
-,
-    } // c")).
-Eval vm_compute in ("<<<M1578>>>" ++ check (runes_of_ascii "options{LittleEndian
-=true ;}
-packet	Logon
-{ u8
-x	,string 
-user ,  } packet
-Logout {	u16 reason 
-,}  packet Empty
-	{
-
-}
-    root
-
-packet  Frame
-	{ 
-u16 
-MsgType ,
-u16 BodyLen@lengthOf( Body )	,
-	u8
-    flags,Logon
-    Body
-	,u32 trailer  ,
     }
-
-")).
-Eval vm_compute in ("<<<M1579>>>" ++ check (runes_of_ascii "packet Sub {
-    u8 a,
-    @calculatedFrom(""CRC16"") u16 SubSum,
-}
-root packet Frame {
-    u16 MsgType,
-    u16 BodyLen @lengthOf(Body),
-    Sub Body,
-    string note,
-    @calculatedFrom(""CRC16"") u16 Checksum,
-    u8 tail,
-}
-")).
-Eval vm_compute in ("<<<M331>>>" ++ check (runes_of_ascii "options {
-calculatedFrom =  '0'
-    // c
-    float= char[] ; Pad= 0	;//	t
-_x
-    // packet A { u8 x, }
-    =007
-    ;
-}packet u
-    { @lengthOf( u) repeat
-string /// triple
-o
-,} root packet lengthOf { }
-
-")).
-Eval vm_compute in ("<<<M1737>>>" ++ check (runes_of_ascii "root packet Frame {
-    u8 K,
-    Logon first,
-    match K as Body {
-        1 : Logon,
-        2 : Logout,
-    },
-}
-
-packet Logon {
-    string user,
-}
-
-packet Logout {
-    u16 reason,
-}")).
-Eval vm_compute in ("<<<M607>>>" ++ check (runes_of_ascii "root packet tag { }  packet MetaDataX{char[007	]
-// c
+    , } packet chars { @tag(007 )match MetaDataX  as As { """ ++ [233]%N ++ runes_of_ascii "t" ++ [233]%N ++ runes_of_ascii """ :
+    // " ++ [27880; 37322]%N ++ runes_of_ascii "
+    pack //x
+,[ ""a	b""
+    , 10 , ""// no comment"",
+3 , ""a\\"" , ""CRC32"" ,
+    /// triple
+    ""\" ++ [233]%N ++ runes_of_ascii """
+, ""// no comment"" ] :uint8x 007 :crc	, [ 3
+,
+    /// triple
+    007
+] :
+    Foo ,7 :
+    roots ,	""" ++ [128512]%N ++ runes_of_ascii """ : trueish, } , @rightPad ('0' )	match o
 /// triple
-asx  @calculatedFrom( ""a\""b""
-) `say ""hi""`// " ++ [27880; 37322]%N ++ runes_of_ascii "
-,  @tag(4294967296 )
-    char[1//x
-] packetx @calculatedFrom(")).
-Eval vm_compute in ("<<<M466>>>" ++ check (runes_of_ascii "packet
-    // `tick` ""quote"" 'q'
-    crc
-// packet A { u8 x, }
+// " ++ [128512]%N ++ runes_of_ascii " emoji
+as BodyLength
+// trailing space 
 //	t
-{
-u32 @xa1 ,
-    // trailing space 
-    roots
-charz //
-`two words`,	}
-    MetaData int {
-} /// triple")).
-Eval vm_compute in ("<<<M426>>>" ++ check (runes_of_ascii "packet
-    // `tick` ""quote"" 'q'
-    crc
-// packet A { u8 x, }
+{[ 10 ] : string_
+,} ,
+int8 i64_
+    @calculatedFrom(
+    ""it's"" )`100% of %d` ,@lengthOf( asx) @calculatedFrom( ""\" ++ [233]%N ++ runes_of_ascii """ // c
+)
+    // a // b
+    int, repeat
+    //	t
+    int16 BodyLength ,
+    @tag( 3 ) string_ { repeat
+int32 stringy
+    , u16 options1, metadata, }
+,
+@tag( 007 ) char[
+00 ] body  ,i64 i8i8@lengthOf( i8i8
+// `tick` ""quote"" 'q'
+// a // b
+) , _x{ u128,repeat
+i32
+asx  , // a // b
+msg_type
+chars	`u8 x,`, u32 len @lengthOf( tag ) , },@lengthOf( body
+/// triple
 //	t
-{
-u32 a1 ,
-    // trailing space 
-    roots
-charz //
-,`two words`	}
-    MetaData int {
-} /// triple")).
-Eval vm_compute in ("<<<M685>>>" ++ check (runes_of_ascii "root packet len // trailing space 
-
-// " ++ [27880; 37322]%N ++ runes_of_ascii "
-//	t
-char[10
-] metadata	@lengthOf( o ) `crlf
-line`,
-    @rightPad
-( ' '
-) string
-    Header @calculatedFrom( ""a\\""
-    ), }
+) @lengthOf(// @lengthOf(
+u128 )
+@calculatedFrom( // 50% %s
+""" ++ [128512]%N ++ runes_of_ascii """
+    // packet A { u8 x, }
+    ) f32a {int32 A
+, body// a // b
+{ uint16 Header,}
+, int64 float, } , }packet
+stringy
+//
+// `tick` ""quote"" 'q'
+{ x { string metadata @lengthOf(_x )
+    `// not a comment`
+    , char[] uint8x `// not a comment` , }  , repeat
+    // " ++ [128512]%N ++ runes_of_ascii " emoji
+    Packet `a\`
+, @tag(
+    007) zchar[ 255
+] f32a
+, char[]  Z9_ ,
+repeat zchar[  65535 ] falsey ,zchar[ 7
+    ] int`100% of %d`
+    ,
+@calculatedFrom( ""\" ++ [233]%N ++ runes_of_ascii """ )
+char[]
+msg_type `" ++ [28040; 24687; 31867; 22411]%N ++ runes_of_ascii "`	, @lengthOf( Logon ) i32 options1
+, @lengthOf( tag  )
+    char[
+1 ] metadata , }
 ")).
-Eval vm_compute in ("<<<M442>>>" ++ check (runes_of_ascii "packet
-    // `tick` ""quote"" 'q'
-    crc
-// packet A { u8 x, }
-//	t
-{
-u32 a1 ,
-    // trailing space 
-    roots
-charz //
-`two words`,	}
-    as int {
-} /// triple")).
-Eval vm_compute in ("<<<M1619>>>" ++ check (runes_of_ascii "packet A {
-    Inner {
-        match k as n {
-            [
-                1, 22, 007, 4, 5,
-                66, 7
-            ] : B,
+Eval vm_compute in ("<<<M4254>>>" ++ check (runes_of_ascii "packet roots {
+    char[] falsey @calculatedFrom(""`tick`"") `{ , }`,
+    match tag as BodyLength {
+        // @lengthOf(
+        ""packet"" : T,
+        42 : f32a,
+        255 : lengthOf,
+        // " ++ [27880; 37322]%N ++ runes_of_ascii "
+    },
+    BodyLength {
+        Z9_ {
+            stringy {
+                metadata,
+            },
+            zchar @lengthOf(x_y_z),
+            match lengthOf as float {
+                10 : repeatCount,
+            },
+            repeat string Pad `u8 x,`,
+        },
+        charz {
+            repeat lengthOf {
+                zchar[007] f32a @calculatedFrom(""it's"") `" ++ [28040; 24687; 31867; 22411]%N ++ runes_of_ascii "`,
+                uint64 tag @calculatedFrom(""packet"") `" ++ [233]%N ++ runes_of_ascii "`,
+                char[10] calculatedFrom `tab	here`,
+                char[] Logon `" ++ [28040; 24687; 31867; 22411]%N ++ runes_of_ascii "`,
+            },
+            i16 x_y_z `doc`,
+            // packet A { u8 x, }
+            // trailing space 
+            string u128,
         },
     },
-}")).
-Eval vm_compute in ("<<<M1812>>>" ++ check (runes_of_ascii "packet
-
-    B{  u8
-    a, 
-}root
-packet
-	P  {
-    u8
-K
-
-    ,
-u64 
-L
-
-@lengthOf(
-
-Body )
-
-    ,match	K
-	as Body
-    {
-1 : B 
-, 
-}  ,	}
-
-")).
-Eval vm_compute in ("<<<M433>>>" ++ check (runes_of_ascii "packet
-    // `tick` ""quote"" 'q'
-    crc
-// packet A { u8 x, }
-//	t
-{
-u32 a1 ,
-    // trailing space 
-    roots
-charz //
-`two words`")).
-Eval vm_compute in ("<<<M1837>>>" ++ check (runes_of_ascii "root packet matchKey {
-    zchar[3] pack @calculatedFrom(""a	b"") `doc`,
+    Foo @lengthOf(o),
+    i32 int,
+    options1,
 }
 
 options {
+    // " ++ [128512]%N ++ runes_of_ascii " emoji
+    // trailing space 
+    leftPad = '\x00';
+    Foo = 255
+    x = true;
 }
 
-MetaData A {
-    int8 msg_type,
+packet x {
+    @calculatedFrom(""" ++ [28040; 24687]%N ++ runes_of_ascii """)
+    repeat u8 As,
+    repeat char[42] A,
+    int8 o `two words`,
+    @lengthOf(asx)
+    @lengthOf(tag)
+    match trueish as lengthOf {
+        0 : o,
+        ""{,}"" : chars,
+        [""packet""] : A,
+        ""\" ++ [233]%N ++ runes_of_ascii """ : pack,
+        [
+            ""\n"", 10, ""CRC32"", 00, 007,
+            42, 0123456789, """"
+        ] : stringy,
+        ""packet"" : i64_,
+    },
+    repeatCount,
+    i32 zchar @lengthOf(Logon) `tab	here`,
+    zchar @calculatedFrom(""CRC32"") `u8 x,`,
+    @lengthOf(lengthOf)
+    // c
+    @rightPad()
+    Packet @calculatedFrom(""// no comment""),
+    @tag(10)
+    // trailing space 
+    // `tick` ""quote"" 'q'
+    len `a\`,// " ++ [128512]%N ++ runes_of_ascii " emoji
 }
-// c")).
-Eval vm_compute in ("<<<M1236>>>" ++ check (runes_of_ascii "root packet matchKey { zchar[ 3 ]
-// c
-pack @calculatedFrom( ""a	b"" ) `doc` , } options { } MetaData A { int8 msg_type , }")).
-Eval vm_compute in ("<<<M1268>>>" ++ check (runes_of_ascii "root packet matchKey { zchar[ 3 ] pack @calculatedFrom( ""a	b"" ) `doc` , } options { } MetaData A { int8 msg_type ,
-// c
-}")).
-Eval vm_compute in ("<<<M567>>>" ++ check (runes_of_ascii "root packet tag { }  packet MetaDataX{char[007	]
-// c
-/// triple
-asx  @calculatedFrom( ""a\""b""
-) `say ""hi""`// " ++ [27880; 37322]%N ++ runes_of_ascii "
-,")).
-Eval vm_compute in ("<<<M1856>>>" ++ check (runes_of_ascii "MetaData
-body
-{i64
 
-    pack
-`it's`  , }
-
-    packet stringy  {
-	int16
-
-    calculatedFrom 
-, // c
+packet _x {
 }
 
-")).
-Eval vm_compute in ("<<<M944>>>" ++ check (runes_of_ascii "packet A {
-    u16 len @lengthOf(body) `x
-`,
-    u32 crc @calculatedFrom(""CRC32"") `x
-`,
-    string body,
-}")).
-Eval vm_compute in ("<<<M883>>>" ++ check (runes_of_ascii "packet A {
-  match k as n {
-    [""a"", ""bb"", 007, ""d"", ""e"", 66, ""g"", ""h"", 9, ""j""] : B,
-    2 : C
-  },
-}")).
-Eval vm_compute in ("<<<M1644>>>" ++ check (runes_of_ascii "packet	A 
-{match 
-k 
-as
-	n	{[
-
-1
-    , ""bb""	, 007
-
-,""d"" ,5 ]
-	:
-
-    B 
-2
-
-    :
-C}
-
+root packet uint8x {
+    uint8 falsey `" ++ [233]%N ++ runes_of_ascii "`,
+    zchar[007] stringy,
+    BodyLength float,
+    zchar[1] roots,
+    uint8 Packet,
+    repeat float64 repeatCount,
+    repeat char f32a `
+    `,
+    i32 a1 `crlf
+    line`,
+}// @lengthOf(")).
+Eval vm_compute in ("<<<M815>>>" ++ check (runes_of_ascii "packet
+Foo
+{
+@lengthOf(
+    u128	) char[ 007]u128 `// not a comment` , @calculatedFrom( """ ++ [233]%N ++ runes_of_ascii "t" ++ [233]%N ++ runes_of_ascii """) char[ 4294967296 ]	i8i8
+@calculatedFrom(	""" ++ [28040; 24687]%N ++ runes_of_ascii """ )
 ,
-    }
-
-")).
-Eval vm_compute in ("<<<M857>>>" ++ check (runes_of_ascii "packet A {
-  match k as n {
-    [""a"", ""bb"", 007, ""d"", ""e"", 66, ""g"", ""h""] : B,
-    2 : C
-  },
-}")).
-Eval vm_compute in ("<<<M1216>>>" ++ check (runes_of_ascii "MetaData float { float64 charz `
-` , } root packet chars { @rightPad ( '0' ) Foo , } // c
-")).
-Eval vm_compute in ("<<<M1195>>>" ++ check (runes_of_ascii "MetaData float { float64 charz `
-` , }
+zchar[ 1]
+    repeatCount , } packet body {u32 A  , @lengthOf(trueish
+)@lengthOf(
+    u8x
+) @rightPad ( '0' )Foo @calculatedFrom( ""a	b"") ,
+char[007 ] charz `" ++ [28040; 24687; 31867; 22411]%N ++ runes_of_ascii "`,@lengthOf(
+int)
+packetx @lengthOf( rootA
+    ) `u8 x,`
+, @rightPad ( '\x00') char[
+/// triple
+// trailing space 
+255] /// triple
+repeatCount`line1
+line2`,
+f32	trueish
+    ,
+    @leftPad ( ' ' )// `tick` ""quote"" 'q'
+@lengthOf(
+    MetaDataX )
+@lengthOf( leftPad
+    ) /// triple
+Pad {match
+Logon as i64_ {
+[255 // `tick` ""quote"" 'q'
+,
+""it's"" , """ ++ [28040; 24687]%N ++ runes_of_ascii """ ,""x y"" ] :
+// `tick` ""quote"" 'q'
+// `tick` ""quote"" 'q'
+pack , [ 10 ,
+    //x
+    ""a\""b"" ,  ""x y"" ,
+// packet A { u8 x, }
+//	t
+""\" ++ [233]%N ++ runes_of_ascii """
+,0,
+    // " ++ [27880; 37322]%N ++ runes_of_ascii "
+    10 , 0,
+255 ] : charz 0
+: string_ ,	[""x y"" ,
+1]: asx""a	b"": asx ,
+    ""a	b"" // " ++ [27880; 37322]%N ++ runes_of_ascii "
+:Header ,	} , } , } packet// 50% %s
+A
+{ }options {
+    len =
+true ;f32a ='0' o
+= char[7 ]
+;  body =
+    ' ' o
+    = 3  } packet	As  {
+@tag( 007 ) @rightPad  ('\x00'
+)
+    @rightPad (' ' ) match roots// `tick` ""quote"" 'q'
+as _x{ 0123456789 : string_ ,
+[ """ ++ [28040; 24687]%N ++ runes_of_ascii """ , ""1"" ,
+""a	b"" , 3
+    , ""x y""
+    ,
+00 , 10 , ""\" ++ [233]%N ++ runes_of_ascii """
 // c
-root packet chars { @rightPad ( '0' ) Foo , }")).
-Eval vm_compute in ("<<<M1406>>>" ++ check (runes_of_ascii "packet chars { } packet MetaDataX // c
-{ @tag( 42 ) i16 string_ , repeat x `say ""hi""` , }")).
-Eval vm_compute in ("<<<M1834>>>" ++ check (runes_of_ascii "
-packet A
+// `tick` ""quote"" 'q'
+] :Pad
+65535 :	x 7 : x_y_z 3 :
+charz ,
+    }
+,
+@rightPad (	' ' ) repeat f64 //
+u128 ,i8 calculatedFrom// @lengthOf(
+@calculatedFrom( ""it's"" ) , @tag( 0
+    /// triple
+    )
+    repeat
+//
+// 50% %s
+zchar[65535
+    ] lengthOf `" ++ [233]%N ++ runes_of_ascii "` ,
+asx
+{msg_type f32a
+`a\` ,
+} ,
+@lengthOf( A)	@rightPad ( )
+@calculatedFrom(
+""packet"")
+char Logon @calculatedFrom( """ ++ [128512]%N ++ runes_of_ascii """ ) , @lengthOf( f32a// 50% %s
+) zchar[
+1
+    ]i8i8`it's`, //	t
+u16 As@calculatedFrom( ""packet"" )  `
+` , }
+")).
+Eval vm_compute in ("<<<M148>>>" ++ check (runes_of_ascii "root packet  i64_ { uint8x
+`tab	here` ,  }
+MetaData// " ++ [27880; 37322]%N ++ runes_of_ascii "
+zchar{ falsey lengthOf  ,
+// a // b
+// @lengthOf(
+i64 asx
+`a\` , } packet
+    _x{ @tag(
+    // " ++ [27880; 37322]%N ++ runes_of_ascii "
+    007 )repeat
+f64 string_ `" ++ [28040; 24687; 31867; 22411]%N ++ runes_of_ascii "` ,
+int64 charz,
+    // trailing space 
+    match a1  as Pad {
+    7:trueish, 0 : i64_
+, 65535: calculatedFrom
+,
+1
+: chars
+,  4294967296: u
+,
+    42:f32a , } // trailing space 
+,	i32 string_@calculatedFrom( """ ++ [28040; 24687]%N ++ runes_of_ascii """ ) ,
+    @lengthOf( matchKey ) repeat asx trueish , string
+zchar
+, uint16
+    Z9_
+, }  MetaData len /// triple
+{T// 50% %s
+stringy // " ++ [27880; 37322]%N ++ runes_of_ascii "
+`100% of %d`
+    , As string_ ,Header MetaDataX,  stringy x // packet A { u8 x, }
+, int chars ,
+} packet pack {  @lengthOf(
+    T
+    ) @leftPad
+    ( ) A @lengthOf(
+    roots)
+    `doc` ,  @lengthOf( body
+    )
+repeat
+    zchar { char[ 42 ] o,
+match uint8x as MetaDataX
+{ 7
+    :
+// 50% %s
+//x
+chars , 4294967296 : Pad ,[ 42 , 007
+    ] : u128} ,// @lengthOf(
+uint16 charz ,// a // b
+},
+@leftPad(
+// a // b
+// packet A { u8 x, }
+'0') repeat A , Logon@lengthOf(Packet) `say ""hi""` , trueish { chars @lengthOf(A ) ,
+repeat u64 chars	,  leftPad@calculatedFrom(""`tick`""// c
+) , asx , } , char[ 65535
+    ] falsey `a\` // `tick` ""quote"" 'q'
+,
+    @rightPad (
+'0'
+    )	int
+    { crc @lengthOf(
+crc ) `say ""hi""` ,
+options1 // packet A { u8 x, }
+packetx `" ++ [233]%N ++ runes_of_ascii "`,} , @rightPad( ' ') falsey
+    // 50% %s
+    @lengthOf(BodyLength ) ,}")).
+Eval vm_compute in ("<<<M4300>>>" ++ check (runes_of_ascii "
+
+  MetaData	options1
+
+{
+// @lengthOf(
+// c
+      }// " ++ [128512]%N ++ runes_of_ascii " emoji
+
+packet As
+    {
+    repeat	//
+    	calculatedFrom // trailing space 
+i8i8
+	`" ++ [233]%N ++ runes_of_ascii "`  ,@calculatedFrom("""")
+
+@tag( 3// " ++ [27880; 37322]%N ++ runes_of_ascii "
+	)	// c
+    @lengthOf( calculatedFrom  )	// " ++ [27880; 37322]%N ++ runes_of_ascii "
+	repeat
+
+    len
+falsey  `a\` 
+,  
+  //
+  stringy
 
     {
-match
-	k
-    as n  {[
-	1,""bb"" ,007
+    uint16 
+options1 
+,
 
-,""d""
-
-, 5 ]
-:
-	B ,
-
-2 : C }  ,
-}")).
-Eval vm_compute in ("<<<M1136>>>" ++ check (runes_of_ascii "packet metadata { Logon { A `" ++ [28040; 24687; 31867; 22411]%N ++ runes_of_ascii "` // c
-, tag o , } , zchar len `// not a comment` , }")).
-Eval vm_compute in ("<<<M1341>>>" ++ check (runes_of_ascii "packet
-// c
-o { repeat Logon uint8x , } options { asx = zchar[ 3 ] stringy = '\x00' }")).
-Eval vm_compute in ("<<<M1373>>>" ++ check (runes_of_ascii "packet o { repeat Logon uint8x , } options { asx = zchar[ 3 ] stringy =
-// c
-'\x00' }")).
-Eval vm_compute in ("<<<M842>>>" ++ check (runes_of_ascii "packet A {
-  match k as n {
-    [1, 22, ""c c"", 4, 5, ""f"", 7] : B,
-    2 : C
-  },
-}")).
-Eval vm_compute in ("<<<M1502>>>" ++ check (runes_of_ascii "packet orderItem  {u8
-    a ,}  root packet 
-newOrder
-	{ orderItem , u8	x
-    ,}
-")).
-Eval vm_compute in ("<<<M814>>>" ++ check (runes_of_ascii "packet A {
-  match k as n {
-    [""a"", 22, ""c c"", 4, ""e""] : B,
-    2 : C
-  },
-}")).
-Eval vm_compute in ("<<<M97>>>" ++ check (runes_of_ascii "options // " ++ [27880; 37322]%N ++ runes_of_ascii "
-{
-// packet A { u8 x, }
-// a // b
 }
-    packet T {
+    ,
+
+@lengthOf(	asx
+
+)  repeat
+	Z9_{
+repeat
+o {
+repeat  uint8x
+
+,
+repeat
+falsey
+{ 
+match x	//
+as charz	// trailing space 
+  {
+""it's"" 
+/// triple
+// " ++ [27880; 37322]%N ++ runes_of_ascii "
+    :  A	""" ++ [233]%N ++ runes_of_ascii "t" ++ [233]%N ++ runes_of_ascii """
+    : int
+    ,
+[255 ,
+	""CRC32""
+
+    , 
+""1"" ,
+	007,
+
+4294967296 
+/// triple
+// packet A { u8 x, }
+,
+	42 	 // c
+    ] :
+
+    float	""packet""
+:
+Logon
+
+    ,	3	:
+string_
+, }
+,	string	zchar	,}	,
+    },A trueish	,
+	}
+	,char[  65535 ]
+Pad  ,	@rightPad ( 	 /// triple
+	'0'
+
+    )	@lengthOf(	msg_type 
+)
+
+@rightPad 
+( 
+'0' ) match lengthOf	as
+    float {  //	t
+
+	255  /// triple
+
+  :  asx  [
+	1 , ""{,}""	,
+
+""""
+
+]:
+leftPad,[ 
+0123456789	,
+	""a\""b""	//	t
+	]: x_y_z
+	1
+    : 
+MetaDataX 
+,[  42
+
+, 0123456789  ] 
+:lengthOf,
+
+},}
+
+options{ Packet =	""a\""b""  ;  }
+packet  // " ++ [128512]%N ++ runes_of_ascii " emoji
+	BodyLength {int64
+
+    x_y_z
+	@lengthOf(	crc )
+    ,
+@leftPad
+( 
+)
+BodyLength 
+falsey
+
+    ,
+	@calculatedFrom(  ""// no comment""
+	) @lengthOf(u  )	//
+    repeat
+    float64  A  , }")).
+Eval vm_compute in ("<<<M388>>>" ++ check (runes_of_ascii "options { // a // b
+_x = ' ' ;}MetaData // `tick` ""quote"" 'q'
+u8x
+    { char crc // a // b
+`doc`
+// c
+//	t
+, u body ,
+zchar[  3 ] lengthOf
+,
+    x_y_z options1 ,
+    }
+    options // 50% %s
+{ } packet calculatedFrom {	@leftPad
+(
+// @lengthOf(
+// a // b
+' '
+    // a // b
+    ) char pack`" ++ [233]%N ++ runes_of_ascii "`
+,@calculatedFrom(""a	b"") match msg_type
+as A{ [ 0123456789  , 007 , /// triple
+""`tick`"", ""\" ++ [233]%N ++ runes_of_ascii """] : o	,42:
+    i64_
+} , x  @calculatedFrom( ""it's""  ),pack , chars {  uint8x
+, i8i8 @calculatedFrom(
+""abc"")
+    , tag {repeat falsey// " ++ [27880; 37322]%N ++ runes_of_ascii "
+`say ""hi""`, // " ++ [27880; 37322]%N ++ runes_of_ascii "
+repeat
+    metadata roots,match
+    lengthOf
+as
+// @lengthOf(
+/// triple
+asx	{[ 0123456789
+// " ++ [27880; 37322]%N ++ runes_of_ascii "
+// `tick` ""quote"" 'q'
+, 65535 ] :
+charz //	t
+, 1 : // `tick` ""quote"" 'q'
+chars, 7 : As ,
+    3 :
+    BodyLength  , ""x y""
+:
+Packet , ""a	b""  : trueish,
+}
+// " ++ [27880; 37322]%N ++ runes_of_ascii "
+// a // b
+,
+    // c
+    } // " ++ [128512]%N ++ runes_of_ascii " emoji
+,
+    float64
+i8i8  `
+`// packet A { u8 x, }
+,
+    } ,
+    @calculatedFrom(	""abc"" )
+    @tag( 255 )	@calculatedFrom( ""`tick`"" ) zchar[ 7 ] body
+@lengthOf( leftPad )
+    ,len
+{
+asx
+    A
+,
+} ,
+    @tag( 7
+    ) @calculatedFrom(""{,}"" )f64
+    MetaDataX ``	,	} root packet metadata
+    {
+repeat//	t
+char[ 0]
+    uint8x , }
+
+")).
+Eval vm_compute in ("<<<M1202>>>" ++ check (runes_of_ascii "packet len
+{  @tag(42	)
+repeat asx
+    {
+    repeat _x u128`100% of %d` ,}	, int64 falsey
+@lengthOf( packetx ) `` , x @calculatedFrom( // trailing space 
+""CRC32"" ) ,match
+Pad as uint8x	{ 65535/// triple
+:
+//x
+//x
+rootA ,
+    } ,
+    @rightPad
+    ( )
+@calculatedFrom(	""{,}""
+) repeat zchar//	t
+`doc`
+,//	t
+repeat msg_type
+// @lengthOf(
+//
+`doc` , char[
+    65535 ] i8i8 `// not a comment`, int32	Z9_
+    `100% of %d`, @calculatedFrom(	""a\\"" )@tag( 1 //	t
+) @calculatedFrom(
+//x
+// @lengthOf(
+""CRC32""	) char[]	Z9_ ,BodyLength  ,}
+    packet T{ }
+    packet chars{
+    repeat uint32
+    repeatCount //
+`line1
+line2` ,
+@lengthOf( i8i8 // a // b
+) repeat u128 chars // a // b
+`100% of %d` ,repeat options1
+    {
+_x{
+repeat falsey
+    `a\` ,	match x_y_z as
+    Packet { """ ++ [28040; 24687]%N ++ runes_of_ascii """ : u8x , }
+, zchar @calculatedFrom( """ ++ [233]%N ++ runes_of_ascii "t" ++ [233]%N ++ runes_of_ascii """ ) ,  }, stringy //x
+,repeat uint16 asx , } ,@tag(
+    0
+    )@leftPad
+( '\x00' )i64 repeatCount, @lengthOf( lengthOf )  repeat float32 Logon
+    ,}
+    packet Logon { @tag( 0 )char[] chars ,  }
+MetaData //	t
+roots { char[] f32a ,
+zchar[ 42 ] A`{ , }` , float32 zchar , } 	 ")).
+Eval vm_compute in ("<<<M4209>>>" ++ check (runes_of_ascii "root packet falsey {
+    zchar[1] MetaDataX,
+    match len as A {
+        [""it's""] : chars,
+        """" : f32a,
+    },
+    rootA {
+        repeat packetx {
+            f64 Header `" ++ [28040; 24687; 31867; 22411]%N ++ runes_of_ascii "`,
+        },
+        repeat char[42] As,
+        Foo @lengthOf(asx) `line1
+        line2`,
+        len {
+            msg_type {
+                float32 BodyLength @lengthOf(u) `line1
+                line2`,
+                repeat u8 u128 `
+                `,
+            },
+            stringy {
+                i8 float @calculatedFrom(""`tick`""),
+            },
+            u64 Logon,
+            char[00] chars @lengthOf(T) `two words`,
+        },
+    },
+    char[] falsey,
+    @calculatedFrom(""" ++ [233]%N ++ runes_of_ascii "t" ++ [233]%N ++ runes_of_ascii """)
+    zchar[10] Pad @calculatedFrom(""a\\""),
+    repeat char[42] zchar,
+    @tag(0)
+    repeat u128 Header,
+    @leftPad('\x00')
+    BodyLength @calculatedFrom(""{,}"") `it's`,
+    char[] leftPad,
+    match body as repeatCount {
+        // " ++ [128512]%N ++ runes_of_ascii " emoji
+        [""\" ++ [233]%N ++ runes_of_ascii """, 00] : Pad,
+        4294967296 : u8x,
+        // `tick` ""quote"" 'q'
+        //x
+    },
+}")).
+Eval vm_compute in ("<<<M3746>>>" ++ check (runes_of_ascii "packet BodyLength {
+    @lengthOf(As)
+    @rightPad()
+    @lengthOf(len)
+    uint8 leftPad,
+    u {
+        match body as Header {
+            // c
+            [4294967296, 7, ""abc"", 1] : stringy,
+        },
+        char[0] leftPad @lengthOf(i8i8),
+        u64 charz,
+        repeat uint16 a1,
+        // @lengthOf(
+    },
+    zchar[0123456789] BodyLength @calculatedFrom(""{,}""),
+    BodyLength `{ , }`,
+}
+
+packet u8x {
+    repeat len {
+        u32 f32a `" ++ [28040; 24687; 31867; 22411]%N ++ runes_of_ascii "`,
+        A,
+        i64 matchKey,
+    },
+}
+
+MetaData _x {
+}
+
+packet _x {
+    f32a {
+        f32 body,
+        uint16 u128,
+        matchKey @lengthOf(Packet),
+    },
+    repeat zchar[0123456789] float `" ++ [233]%N ++ runes_of_ascii "`,
+    f32 i8i8 `doc`,
+    repeat string_,
+    A `
+        `,
+    match u128 as i8i8 {
+        0123456789 : float,
+        10 : roots,
+        ""it's"" : _x,
+        10 : Z9_,
+        [""a\""b"", ""x y""] : matchKey,
+        [
+            ""\" ++ [233]%N ++ runes_of_ascii """, 10, """ ++ [28040; 24687]%N ++ runes_of_ascii """, 255, 0123456789,
+            7, 007
+        ] : Pad,
+    },
+}")).
+Eval vm_compute in ("<<<M4444>>>" ++ check (runes_of_ascii "
+packet 
+matchKey  {  float64 Packet
+`u8 x,`
+    , @lengthOf(
+    T 
+)
+@lengthOf(
+chars// " ++ [27880; 37322]%N ++ runes_of_ascii "
+	  ) 
+        // `tick` ""quote"" 'q'
+
+	@rightPad
+
+( 
+' '
+    )	string_
+falsey
+,
+
+    // 50% %s
+  @rightPad  ( 
+) repeat charz
+
+    {repeat
+
+    //
+	u16
+
+len 	 // " ++ [27880; 37322]%N ++ runes_of_ascii "
+    , 
+i64 falsey  // " ++ [128512]%N ++ runes_of_ascii " emoji
+	@calculatedFrom( 	 // a // b
+""{,}""
+
+    ) 
+    // " ++ [128512]%N ++ runes_of_ascii " emoji
+,
+repeat	// c
+	char[
+	7
+
+]
+
+x_y_z
+
+    `a\` ,
+
+len	@lengthOf(u)
+
+    ,
+
+}
+
+    ,
+char
+o	//
+`100% of %d`
+
+    , uint8
+
+chars
+    @calculatedFrom(
+    // " ++ [27880; 37322]%N ++ runes_of_ascii "
+	// a // b
+  ""\n"")
+, } root
+packet 
+leftPad	{ @rightPad  ( 
+)  u64
+
+    pack  @calculatedFrom(""packet"")  ,float32
+
+BodyLength
+,
+
+int32
+
+packetx  // packet A { u8 x, }
+	`it's` , }
+	packet  float { stringy  msg_type
+
+,Z9_
+
+@calculatedFrom(
+
+    ""1""  )`u8 x,`
+	, @lengthOf( Header
+
+    // @lengthOf(
+    // packet A { u8 x, }
+    )  
+      // a // b
+
+  trueish
+	@calculatedFrom( ""x y""
+	)
+    ,}
+
+")).
+Eval vm_compute in ("<<<M3284>>>" ++ check (runes_of_ascii "// top
+packet
+    // c0
+x_y_z
+    // c1
+{
+    // c2
+match
+    // c3
+leftPad
+    // c4
+as
+    // c5
+string_
+    // c6
+{
+    // c7
+0
+    // c8
+:
+    // c9
+A
+    // c10
+,
+    // c11
+""a	b""
+    // c12
+:
+    // c13
+x_y_z
+    // c14
+,
+    // c15
+}
+    // c16
+,
+    // c17
+@calculatedFrom(
+    // c18
+""\n""
+    // c19
+)
+    // c20
+metadata
+    // c21
+{
+    // c22
+repeat
+    // c23
+lengthOf
+    // c24
+f32a
+    // c25
+`line1
+line2`
+    // c26
+,
+    // c27
+MetaDataX
+    // c28
+{
+    // c29
+u8x
+    // c30
+matchKey
+    // c31
+,
+    // c32
+}
+    // c33
+,
+    // c34
+uint8
+    // c35
+a1
+    // c36
+@lengthOf(
+    // c37
+body
+    // c38
+)
+    // c39
+,
+    // c40
+string
+    // c41
+charz
+    // c42
+`a\`
+    // c43
+,
+    // c44
+}
+    // c45
+,
+    // c46
+}
+    // c47
+packet
+    // c48
+charz
+    // c49
+{
+    // c50
+}
+    // c51
+MetaData
+    // c52
+A
+    // c53
+{
+    // c54
+}
+    // c55
+")).
+Eval vm_compute in ("<<<M1014>>>" ++ check (runes_of_ascii "// `tick` ""quote"" 'q'
+packet Packet	{  char	Header
+    `crlf
+line`,	}
+    options
+{falsey
+    // trailing space 
+    =
+""a	b""
+; }
+    packet Pad
+    // c
+    { repeat
+charz{
+    int32
+    Pad
+    `a\`
+,
+/// triple
+// 50% %s
+char[
+0123456789
+    // packet A { u8 x, }
+    ]
+// " ++ [128512]%N ++ runes_of_ascii " emoji
+// 50% %s
+u128 @calculatedFrom( ""packet"")`// not a comment`
+, // @lengthOf(
+_x//x
+i64_  , match o as
+    /// triple
+    tag {	[ 00 ] : pack} , }	,	@lengthOf(	stringy )
+f32 body
+`tab	here`
+    ,
+repeat	string_, @lengthOf( lengthOf )rootA
+    @lengthOf( x ) , i8i8 Packet ,@tag(
+    3  )
+    zchar[  0123456789 ] A
+`// not a comment` ,	repeat char[] BodyLength	`{ , }`
+    /// triple
+    , A stringy , } root packet
+a1
+{ } MetaData msg_type { string_
+    A ,
+uint16 f32a
+,
+/// triple
+// @lengthOf(
+asx MetaDataX
+,zchar[ 00 ] msg_type// c
+, }")).
+Eval vm_compute in ("<<<M237>>>" ++ check (runes_of_ascii "packet
+    body { @tag( 42
+    ) char[ 4294967296
+] chars @calculatedFrom( ""{,}"")
+`doc` // " ++ [27880; 37322]%N ++ runes_of_ascii "
+,
+repeat string lengthOf , @tag(
+    3 /// triple
+) string float @lengthOf( o
+),
+    u32 pack `100% of %d`, stringy
+@lengthOf( repeatCount
+    ) `say ""hi""`  , float32 crc `two words` , } packet zchar { @tag(
+    0
+    )
+    @tag(  1 // a // b
+)
+@lengthOf(
+    // `tick` ""quote"" 'q'
+    Z9_) u32 Logon	@calculatedFrom(  ""x y""
+)	, @tag( //	t
+1 )  string
+    packetx@lengthOf( u8x
+//	t
+// `tick` ""quote"" 'q'
+)	, zchar[10 ] uint8x
+    /// triple
+    `// not a comment`
+, repeat // a // b
+stringy{ i16
+    Z9_`// not a comment` ,repeat zchar[
+    4294967296 ] u
+,zchar @calculatedFrom(  ""{,}"" ) `a\` , }
+,
+rootA  u128 , } packet asx {
+repeat i64_ ,@lengthOf( msg_type )repeat Z9_ rootA
+    , }")).
+Eval vm_compute in ("<<<M1359>>>" ++ check (runes_of_ascii "root
+    packet
+packetx { @calculatedFrom(
+""`tick`""
+)
+// packet A { u8 x, }
+//
+@tag( 255) @calculatedFrom( ""a	b"" )
+repeat f64
+stringy , repeat // a // b
+Z9_ repeatCount `" ++ [233]%N ++ runes_of_ascii "`
+    ,
+// trailing space 
+// packet A { u8 x, }
+repeat float64 int `100% of %d` , zchar[ 0123456789 ] MetaDataX @lengthOf(
+crc ) , // " ++ [128512]%N ++ runes_of_ascii " emoji
+trueish {Logon
+, i32 matchKey `doc`
+, f64 float
+    // a // b
+    `// not a comment`
+// a // b
+// " ++ [27880; 37322]%N ++ runes_of_ascii "
+, // trailing space 
+i64 Z9_
+@calculatedFrom( ""// no comment"" )	,
+    }
+,
+    @lengthOf(
+    BodyLength ) repeat
+// " ++ [128512]%N ++ runes_of_ascii " emoji
+//
+u128
+{ u128 , falsey repeatCount
+    //
+    ,} ,	match stringy
+as a1{ 42 :BodyLength ,[ 4294967296 ,
+0123456789 //x
+] :	len,
+[
+// 50% %s
+// 50% %s
+""packet""
+    , """ ++ [233]%N ++ runes_of_ascii "t" ++ [233]%N ++ runes_of_ascii """ ]	:
+Pad// 50% %s
+, 3 : stringy ,  } , }
+
+")).
+Eval vm_compute in ("<<<M936>>>" ++ check (runes_of_ascii "packet f32a {@leftPad
+    ( '\x00' )match	repeatCount
+as packetx	{	4294967296:	leftPad , [ ""packet"" , ""abc""
+,  ""CRC32""
+,1 , 007
+] :
+    //
+    u128 // @lengthOf(
+,
+    } , @calculatedFrom(
+""packet""
+    )/// triple
+@tag(
+00	)
+    char u8x @lengthOf(	rootA) , repeat	zchar[ 42
+]metadata,
+    float32 Z9_	, @lengthOf(
+int ) u8x { repeat zchar[ 7
+    // " ++ [27880; 37322]%N ++ runes_of_ascii "
+    ] i8i8  `crlf
+line` , u32 chars `// not a comment` ,
+    rootA @calculatedFrom(""x y""
+)
+, zchar[1 ] chars @calculatedFrom( ""{,}""
+    // a // b
+    ) //
+,}, float32
+    Header @lengthOf(f32a )	, repeat options1 { repeat i64// " ++ [27880; 37322]%N ++ runes_of_ascii "
+i8i8 // `tick` ""quote"" 'q'
+`
+`,} , repeat
+    char[ 7 ]matchKey ,	o , u16
+roots
+@calculatedFrom(
+// " ++ [128512]%N ++ runes_of_ascii " emoji
+// " ++ [128512]%N ++ runes_of_ascii " emoji
+""{,}"") `tab	here`
+,
     }
 ")).
-Eval vm_compute in ("<<<M747>>>" ++ check (runes_of_ascii "as [ match ] ] : @calculatedFrom( uint8 ) as @calculatedFrom( string")).
-Eval vm_compute in ("<<<M158>>>" ++ check (runes_of_ascii "options { x_y_z =
-true;a1 = true ;
-options1  =
-    true  ; }
-")).
-Eval vm_compute in ("<<<M1086>>>" ++ check (runes_of_ascii "packet A { @leftPad() char[4] x, @rightPad( ) zchar[2] y, }")).
-Eval vm_compute in ("<<<M1294>>>" ++ check (runes_of_ascii "packet x { @rightPad ( ) repeat roots Logon `doc` // c
-, }")).
-Eval vm_compute in ("<<<M2106>>>" ++ check (runes_of_ascii "
-root
-packet 
-P
-
-{	repeat char cs	, u8
-    x  ,
-
-} ")).
-Eval vm_compute in ("<<<M1378>>>" ++ check (runes_of_ascii "// top
-MetaData // c0
-o // c1
-{ // c2
-} // c3
-")).
-Eval vm_compute in ("<<<M935>>>" ++ check (runes_of_ascii "root packet A {
-    u8 x `a
-    b
-  c`,
-}")).
-Eval vm_compute in ("<<<M1766>>>" ++ check (runes_of_ascii "MetaData packetx {
-    zchar[7] u128,
-}")).
-Eval vm_compute in ("<<<M1085>>>" ++ check (runes_of_ascii "packet A { @tag( // a
- 1 ) u8 x, }")).
-Eval vm_compute in ("<<<M983>>>" ++ check (runes_of_ascii "packet A {
- u8 x `d" ++ [160]%N ++ runes_of_ascii "`, // c" ++ [160]%N ++ runes_of_ascii "
-}")).
-Eval vm_compute in ("<<<M314>>>" ++ check (runes_of_ascii "MetaData roots	{ u Logon ,}")).
-Eval vm_compute in ("<<<M737>>>" ++ check (runes_of_ascii "\Tv)jTR6Bqg&Y!_Pjqu\Kxc")).
-Eval vm_compute in ("<<<M1386>>>" ++ check (runes_of_ascii "MetaData o
-// c
-{ }")).
-Eval vm_compute in ("<<<M1031>>>" ++ check (runes_of_ascii "packet A {
+Eval vm_compute in ("<<<M592>>>" ++ check (runes_of_ascii "root
+packet// a // b
+options1{ repeatCount
+//	t
+// a // b
+@calculatedFrom( ""{,}""
+    )
+,// packet A { u8 x, }
+uint8x @calculatedFrom( ""\" ++ [233]%N ++ runes_of_ascii """) `crlf
+line` , @calculatedFrom( ""x y""
+) uint16
+    packetx ,
+    char[]// `tick` ""quote"" 'q'
+f32a @calculatedFrom( """" ) `doc`
+    ,
+/// triple
+//
+@tag(
+    3)
+@calculatedFrom( """ ++ [233]%N ++ runes_of_ascii "t" ++ [233]%N ++ runes_of_ascii """ ) u32 trueish , u16 options1 , lengthOf @calculatedFrom( """" ) `doc` , @lengthOf(
+    // " ++ [27880; 37322]%N ++ runes_of_ascii "
+    Packet ) @tag(255) @lengthOf( f32a // a // b
+)Header
+@lengthOf( i8i8
+) ,
+    @leftPad ( ' ' ) repeat i8i8 ,
+// @lengthOf(
+// " ++ [27880; 37322]%N ++ runes_of_ascii "
+match matchKey as
+    stringy {42 :body, ""a\\""
+    : chars , 7
+    :
+    charz // 50% %s
+, """" : a1 , ""{,}""
+    :string_	,""{,}"" : MetaDataX
+} ,}")).
+Eval vm_compute in ("<<<M385>>>" ++ check (runes_of_ascii "
+options{ msg_type	= ""it's"" }
+    // c
+    root packet // @lengthOf(
+stringy
+    { @rightPad
+(
+    // " ++ [128512]%N ++ runes_of_ascii " emoji
+    '0' ) //	t
+char[ 42 ] calculatedFrom@lengthOf( _x ) ,@calculatedFrom(
+""a\\"" // c
+)
+@lengthOf(// a // b
+falsey  ) int16 repeatCount// @lengthOf(
+@lengthOf( falsey )
+    `it's`, // `tick` ""quote"" 'q'
+tag //
+{
+match
+    f32a as/// triple
+zchar { 42: // 50% %s
+string_	,// a // b
+},
+    }
+, string_ @calculatedFrom(
+""`tick`"" ) `` ,@lengthOf( leftPad ) i32 A
+    `u8 x,`
+    // a // b
+    , @lengthOf( falsey ) zchar[
+255] rootA
+    // packet A { u8 x, }
+    @lengthOf(  T  ) `" ++ [233]%N ++ runes_of_ascii "`, @lengthOf(
+crc ) char[] // @lengthOf(
+len	, } MetaData roots
+{ As Pad, }")).
+Eval vm_compute in ("<<<M605>>>" ++ check (runes_of_ascii "  packet body {char[ 3 ]  u
+    ,zchar[ 007] lengthOf @lengthOf(// a // b
+rootA ) , @leftPad('0'	) x{match packetx as  packetx
+    {
+    [ 10 ]
+    : repeatCount ,
+// a // b
+// packet A { u8 x, }
+[// c
+""1""
+, ""a\\""] :
+rootA
+    , }
+, },
+    Logon { trueish{ repeatCount i64_ `tab	here`, i64_ { repeat
+//x
+// 50% %s
+Logon asx,} ,//	t
+u64  chars
+`say ""hi""` , // trailing space 
+int64 trueish , } ,
+    _x Foo,
+repeat uint64 int `doc`,int64	chars ,} , repeat char[ 0 // packet A { u8 x, }
+] Foo	,match
+trueish as
+_x {007 :// @lengthOf(
+falsey
+    , // `tick` ""quote"" 'q'
+255// " ++ [27880; 37322]%N ++ runes_of_ascii "
+: u , 1 :  msg_type , 10:
+Packet , }
+    , repeat Z9_ `100% of %d` , }")).
+Eval vm_compute in ("<<<M3544>>>" ++ check (runes_of_ascii "packet repeatCount {
+    char[00] uint8x,
+    // a // b
+    @calculatedFrom(""a\\"")
+    asx @lengthOf(charz),
 }
-// c" ++ [12]%N)).
-Eval vm_compute in ("<<<M1077>>>" ++ check (runes_of_ascii "options { // a
- }")).
-Eval vm_compute in ("<<<M340>>>" ++ check (runes_of_ascii "// " ++ [27880; 37322]%N ++ runes_of_ascii "
+
+packet string_ {
+    @calculatedFrom(""it's"")
+    repeat char[] BodyLength,
+    @calculatedFrom(""abc"")
+    int32 x,
+    @tag(255)
+    @calculatedFrom(""" ++ [28040; 24687]%N ++ runes_of_ascii """)
+    @tag(0123456789)
+    char[65535] len,
+    @tag(0123456789)
+    @lengthOf(stringy)
+    int,
+    @tag(65535)
+    MetaDataX {
+        A `it's`,
+        float64 options1 @calculatedFrom(""// no comment""),
+    },
+    @rightPad('\x00')
+    zchar[007] rootA @lengthOf(lengthOf) `" ++ [28040; 24687; 31867; 22411]%N ++ runes_of_ascii "`,
+    @lengthOf(crc)
+    repeat string charz,
+    @tag(1)
+    repeat a1,
+}")).
+Eval vm_compute in ("<<<M3906>>>" ++ check (runes_of_ascii "packet u {
+    @lengthOf(metadata)
+    repeat Foo {
+        match Logon as string_ {
+            [""" ++ [28040; 24687]%N ++ runes_of_ascii """, ""x y"", ""a	b""] : Foo,
+            ""\n"" : pack,
+            00 : metadata,
+            [
+                ""a	b"", 42, ""a\\"", ""a\\"", ""x y"",
+                ""packet""
+            ] : MetaDataX,
+        },
+        i32 u8x,
+        BodyLength,// packet A { u8 x, }
+        MetaDataX,
+    },
+    repeat body trueish,
+    tag {
+        repeat u64 u128 `{ , }`,
+        zchar[0] int @lengthOf(rootA),
+    },// `tick` ""quote"" 'q'
+    @rightPad()
+    @tag(42)
+    @calculatedFrom(""a\""b"")
+    repeat Z9_ Z9_,
+}")).
+Eval vm_compute in ("<<<M780>>>" ++ check (runes_of_ascii "
+packet trueish
+{}root packet msg_type  {
+// 50% %s
+// " ++ [128512]%N ++ runes_of_ascii " emoji
+char[]
+u8x@lengthOf(int
+)// 50% %s
+,u128
+{
+//x
+/// triple
+Logon@calculatedFrom( ""1"" )
+,
+}, @lengthOf( calculatedFrom )
+repeat f32 Z9_, u16 int
+@lengthOf( i64_
+    // 50% %s
+    ) `line1
+line2` , //x
+@leftPad ('\x00') @calculatedFrom(""" ++ [28040; 24687]%N ++ runes_of_ascii """)  int8 lengthOf
+@calculatedFrom( ""x y"" ) `crlf
+line`
+,
+uint8x , @lengthOf( packetx )
+    /// triple
+    char[]
+Packet // " ++ [27880; 37322]%N ++ runes_of_ascii "
+,@leftPad	( )
+i64_	Header
+,// 50% %s
+u32 o @lengthOf(
+    falsey)
+, @lengthOf(	MetaDataX
+)match Foo as trueish
+{
+    [
+""it's"" ,10]:
+Pad , },
+    }")).
+Eval vm_compute in ("<<<M1334>>>" ++ check (runes_of_ascii "// a // b
+MetaData
+    T
+    {
+// @lengthOf(
+// trailing space 
+Foo Logon ,Logon lengthOf , char[00
+    ]
+//
+// @lengthOf(
+pack
+    ,
+    char[7 //
+]
+    // " ++ [128512]%N ++ runes_of_ascii " emoji
+    i8i8 `line1
+line2` ,} packet trueish // trailing space 
+{	@calculatedFrom(	""abc""
+) @leftPad
+( '0') @lengthOf(trueish) uint8x
+    ,match x as
+Packet //
+{// a // b
+""" ++ [128512]%N ++ runes_of_ascii """: repeatCount , [ 007 , 255, //x
+4294967296 , 255// a // b
+, """ ++ [28040; 24687]%N ++ runes_of_ascii """ , ""\n"" // a // b
+,""\" ++ [233]%N ++ runes_of_ascii """ ,
+""abc""
+] :  A
+    , ""abc"" : packetx  , }
+, @tag(
+7 ) @lengthOf(msg_type )
+    @tag( 00 )
+int
+    pack
+`" ++ [28040; 24687; 31867; 22411]%N ++ runes_of_ascii "`	, }
+// a // b
+")).
+Eval vm_compute in ("<<<M765>>>" ++ check (runes_of_ascii "packet packetx
+{
+    match
+    // " ++ [27880; 37322]%N ++ runes_of_ascii "
+    tag	as body  { [255 ]
+    :u8x ,} ,@lengthOf(lengthOf
+) MetaDataX
+, u128 // c
+repeatCount
+,
+@leftPad
+(
+    )	match tag	as Pad { ""\n""//	t
+: o [7 ] :BodyLength ,	4294967296 : roots
+, 4294967296 :rootA ,
+""x y"":	a1, } ,
+    //
+    u16// " ++ [27880; 37322]%N ++ runes_of_ascii "
+Logon ,match len
+    as tag{ [ ""// no comment""
+    ] : MetaDataX ,
+    ""1"" :
+    roots ,""\n"" //
+:pack, ""CRC32""
+:
+f32a ,}
+    , @lengthOf( crc
+    )
+repeat falsey, }
+MetaData
+BodyLength {char[	1
+    ]//	t
+packetx `doc` ,}// " ++ [128512]%N ++ runes_of_ascii " emoji
+packet crc {
+}")).
+Eval vm_compute in ("<<<M4306>>>" ++ check (runes_of_ascii "
+
+  options {
+	}  packet
+i8i8{ 
+	    //x
+} root 
+packet
+crc  {
+
+    @calculatedFrom(	// 50% %s
+	""a\\""
+) @calculatedFrom(
+""// no comment"" 
+)
+
+@calculatedFrom(""packet"" ) repeat
+As 
+{ 
+
+    // a // b
+
+// c
+	zchar[	7
+	]falsey// @lengthOf(
+    @lengthOf(// " ++ [128512]%N ++ runes_of_ascii " emoji
+	  int ) ,  repeat zchar[
+    007 ] 
+i8i8 `line1
+line2`
+, 
+}
+	,	repeat
+
+    Logon {
+	Foo  @lengthOf( 
+    //
+  // c
+	chars	)
+
+    , match matchKey  as	Pad{
+
+    42
+:  // 50% %s
+	i8i8
+, }  // `tick` ""quote"" 'q'
+    	, } , 
+}
+")).
+Eval vm_compute in ("<<<M4416>>>" ++ check (runes_of_ascii "options{	repeatCount =
+    false  // trailing space 
+;
+
+Packet
+
+= 
+""{,}"" 
+	//
+    ; float
+//
+      =	""`tick`"" T =
+    char[	007
+] ;
+
+    calculatedFrom =
+
+uint8  }
+
+packet	x { int32
+
+options1@calculatedFrom(	""{,}"" 
+)
+    // a // b
+	// c
+	`tab	here`
+	,
+
+match  lengthOf
+as
+    u128{  /// triple
+		10
+
+:
+rootA,
+// c
+    	[
+7//	t
+  	,
+0
+]	: 
+Header ,
+    // @lengthOf(
+// a // b
+    3 :	i8i8
+    , ""1"":	falsey
+
+    ""`tick`"" : matchKey
+    ,
+""a\\""
+
+    : 
+tag ,} 
+, }
+")).
+Eval vm_compute in ("<<<M296>>>" ++ check (runes_of_ascii "MetaData
+    string_ // packet A { u8 x, }
+{
+u128 chars `u8 x,`
+,
+u8x // packet A { u8 x, }
+leftPad
+, } packet float {
+    //	t
+    trueish {
+float { u16 stringy , }
+    ,crc @calculatedFrom( ""// no comment""),// packet A { u8 x, }
+zchar[
+00 ] x_y_z @lengthOf( trueish )
+    `crlf
+line` ,}
+, o{u8x
+    { As @calculatedFrom(""a	b""
+//x
+// trailing space 
+)
+    , zchar[ 3]MetaDataX , } , char[ 255]  _x
+,}
+    // " ++ [128512]%N ++ runes_of_ascii " emoji
+    , }
+packet repeatCount { } 	 ")).
+Eval vm_compute in ("<<<M530>>>" ++ check (runes_of_ascii "packet
+    len	{ uint8
+matchKey	,
+    repeat body
+,
+    float32 int @lengthOf(T),} packet _x { @lengthOf(
+crc ) float64 msg_type
+// c
+// packet A { u8 x, }
+@lengthOf(rootA) `a\`// trailing space 
+,}	root packet
+    packetx// " ++ [128512]%N ++ runes_of_ascii " emoji
+{ A Header
+, repeat u8x {
+    char[// " ++ [27880; 37322]%N ++ runes_of_ascii "
+0
+]
+    leftPad @calculatedFrom( ""{,}""
+) ,
+    float32 calculatedFrom
+    `say ""hi""` ,
+    Logon string_ , } ,
+// 50% %s
+// @lengthOf(
+zchar[  65535 ]	pack ,
+    }")).
+Eval vm_compute in ("<<<M113>>>" ++ check (runes_of_ascii "// trailing space 
+root
+    packet	repeatCount
+{ @lengthOf(
+    _x
+) msg_type repeatCount
+    // a // b
+    ,repeat
+//	t
+// @lengthOf(
+uint16 u
+//
+/// triple
+,	zchar[65535 ] f32a `100% of %d` ,}
+/// triple
+// " ++ [27880; 37322]%N ++ runes_of_ascii "
+packet i64_ {
+@rightPad
+( )  BodyLength @calculatedFrom(
+    ""abc"" )
+`line1
+line2` ,
+}
+MetaData o {zchar[ 65535 ]// `tick` ""quote"" 'q'
+uint8x // 50% %s
+, zchar[1 ]
+i64_
+,
+    zchar[ 4294967296 ]As , }
+")).
+Eval vm_compute in ("<<<M3441>>>" ++ check (runes_of_ascii "packet Frame {
+    u8 HK,
+    u8 BK,
+    u8 TK,
+    match HK as Hdr {
+        1 : HdrA,
+        2 : HdrB,
+    },
+    match BK as Body {
+        1 : BodyA,
+        2 : BodyB,
+    },
+    match TK as Trl {
+        1 : TrlA,
+    },
+}
+packet HdrA {
+    u8 a,
+}
+packet HdrB {
+    u16 b,
+}
+packet BodyA {
+    u32 c,
+}
+packet BodyB {
+    u64 d,
+}
+packet TrlA {
+    u8 e,
+}
+root packet Msg {
+    Frame,
+    u8 x,
+}
+")).
+Eval vm_compute in ("<<<M1051>>>" ++ check (runes_of_ascii "packet
+BodyLength { @tag( 00  ) @tag( 7
+    ) repeat
+uint8
+charz `// not a comment`
+// a // b
+// 50% %s
+,
+@tag( 255 )f64 packetx
+@lengthOf( Logon ) `100% of %d`
+, @tag( 0 )
+msg_type falsey ,
+repeat
+Foo
+    { match o	as
+// @lengthOf(
+// a // b
+u128	{
+10: body , 65535 :o ,
+4294967296 :  calculatedFrom,""" ++ [28040; 24687]%N ++ runes_of_ascii """
+    : zchar
+, ""packet"" : f32a} ,match u8x
+as  stringy{ ""x y"" :leftPad , } ,} ,
+}")).
+Eval vm_compute in ("<<<M3868>>>" ++ check (runes_of_ascii "
+
+  packet
+    len 	 // 50% %s
+
+  {
+	@calculatedFrom( ""it's""
+	)
+calculatedFrom /// triple
+  	msg_type,}options
+	{zchar =3
+    ;
+
+    T =
+	""" ++ [28040; 24687]%N ++ runes_of_ascii """ ; x
+=
+char[	// 50% %s
+    3
+    ]
+Foo =false
+;  } options  { zchar
+	= ""`tick`"" ;
+T=
+true 
+Packet
+	= 
+' ' }
+	options {A	=
+
+    ""\n""	;
+	roots  =
+""1"";lengthOf
+    =
+    0;
+metadata
+        // " ++ [128512]%N ++ runes_of_ascii " emoji
+  =
+0123456789
+
+}
+")).
+Eval vm_compute in ("<<<M977>>>" ++ check (runes_of_ascii "packet zchar
+    {	i32 lengthOf
+// trailing space 
+// 50% %s
+@calculatedFrom(  ""{,}""  )`100% of %d` , @tag( 4294967296 )
+@rightPad( '0' ) match
+leftPad as packetx { [
+    ""`tick`"" ] :BodyLength
+,[
+00 ,3,""it's"" ] :
+a1
+    , 007 :
+f32a , """ ++ [28040; 24687]%N ++ runes_of_ascii """// 50% %s
+: // " ++ [27880; 37322]%N ++ runes_of_ascii "
+body ,1 ://	t
+u128 ,},
+@calculatedFrom(""CRC32"")
+f32a @lengthOf(	charz )
+    `say ""hi""`	,
+}
+")).
+Eval vm_compute in ("<<<M868>>>" ++ check (runes_of_ascii "packet chars {	@calculatedFrom(
+""// no comment"" )	Logon @lengthOf( //x
+rootA )	, match
+    // @lengthOf(
+    T as
+    calculatedFrom
+{[ 0
+]:
+    metadata ,	}
+, @lengthOf( // 50% %s
+string_)
+//
+// packet A { u8 x, }
+repeat
+    uint8x // c
+falsey , @rightPad
+(	'\x00') trueish
+@calculatedFrom(  """ ++ [28040; 24687]%N ++ runes_of_ascii """
+/// triple
+// " ++ [128512]%N ++ runes_of_ascii " emoji
+)`{ , }`, }
+")).
+Eval vm_compute in ("<<<M4403>>>" ++ check (runes_of_ascii "packet string_ {
+    @lengthOf(metadata)
+    zchar[0123456789] A,
+    rootA zchar,
+    u32 A @calculatedFrom(""abc""),
+    @calculatedFrom(""" ++ [28040; 24687]%N ++ runes_of_ascii """)
+    match chars as body {
+        ""// no comment"" : float,
+        1 : stringy,
+        [1, 42] : roots,
+        """ ++ [28040; 24687]%N ++ runes_of_ascii """ : a1,
+        ""packet"" : repeatCount,
+        7 : int,
+    },
+}")).
+Eval vm_compute in ("<<<M973>>>" ++ check (runes_of_ascii "packet Packet
+{repeatCount	{char[ 65535  ]
+Logon
+    , repeat packetx { x_y_z
+@calculatedFrom(	""""
+    ) ,	}  , repeat
+u64// @lengthOf(
+f32a
+    , string a1 @lengthOf( calculatedFrom
+) ,} , @lengthOf( x ) int64
+    Logon ,
+    @tag( 10 )zchar[0 ]metadata , }
+MetaData //
+a1 { charz float
+    ,i32 i8i8	`" ++ [233]%N ++ runes_of_ascii "`, }")).
+Eval vm_compute in ("<<<M3509>>>" ++ check (runes_of_ascii "packet MetaDataX {
+    @tag(10)
+    // " ++ [128512]%N ++ runes_of_ascii " emoji
+    @leftPad()
+    string lengthOf @calculatedFrom(""packet""),
+    string metadata `line1
+    line2`,
+    @lengthOf(options1)
+    _x {
+        zchar[10] u128 `crlf
+        line`,
+    },
+    a1 body,
+    char[007] MetaDataX @calculatedFrom(""it's""),
+}")).
+Eval vm_compute in ("<<<M1210>>>" ++ check (runes_of_ascii "
+packet metadata
+{ Foo
+`tab	here`, char[ 42]i64_ @calculatedFrom( ""CRC32"" ) ,f64 i8i8 `a\` , // `tick` ""quote"" 'q'
+repeatCount @lengthOf( x
+) ,  } packet leftPad{ zchar[0123456789
+/// triple
+// @lengthOf(
+]
+int ,	}
+MetaData	rootA {
+    string body , zchar[ 007 ]  msg_type //x
+, }
+")).
+Eval vm_compute in ("<<<M1672>>>" ++ check (runes_of_ascii "// 50% %s
+packet	a1
+    { zchar[
+// a // b
+// 50% %s
+007]
+T `it's`
+    ,@rightPad
+    // a // b
+    (
+'\x00')
+    o repeatCount , }  packet Logon {  }packet	Logon //x
+{ repeat // " ++ [128512]%N ++ runes_of_ascii " emoji
+uint16 u128
+    //
+    `a\`,
+falsey
+@calculatedFrom(""packet"" ""packet"" ) ,
+    } 	 ")).
+Eval vm_compute in ("<<<M1018>>>" ++ check (runes_of_ascii "// `tick` ""quote"" 'q'
+options{ u // `tick` ""quote"" 'q'
+= false ;pack = 4294967296 u128 // " ++ [128512]%N ++ runes_of_ascii " emoji
+= i8;
+// a // b
+// 50% %s
+roots
+= ""packet"";
+falsey // 50% %s
+=  007
+;	} options {
+    // @lengthOf(
+    BodyLength = true ; metadata =  true x /// triple
+=  uint16 ; }
+")).
+Eval vm_compute in ("<<<M1577>>>" ++ check (runes_of_ascii "// 50% %s
+packet	a1
+    { zchar[
+// a // b
+// 50% %s
+007]
+T `it's`
+    ,@rightPad
+    // a // b
+    (
+'\x00') )
+    o repeatCount , }  packet Logon {  }packet	Logon //x
+{ repeat // " ++ [128512]%N ++ runes_of_ascii " emoji
+uint16 u128
+    //
+    `a\`,
+falsey
+@calculatedFrom(""packet"" ) ,
+    } 	 ")).
+Eval vm_compute in ("<<<M1518>>>" ++ check (runes_of_ascii "// 50% %s
+a1	packet
+    { zchar[
+// a // b
+// 50% %s
+007]
+T `it's`
+    ,@rightPad
+    // a // b
+    (
+'\x00')
+    o repeatCount , }  packet Logon {  }packet	Logon //x
+{ repeat // " ++ [128512]%N ++ runes_of_ascii " emoji
+uint16 u128
+    //
+    `a\`,
+falsey
+@calculatedFrom(""packet"" ) ,
+    } 	 ")).
+Eval vm_compute in ("<<<M1678>>>" ++ check (runes_of_ascii "// 50% %s
+packet	a1
+    { zchar[
+// a // b
+// 50% %s
+007]
+T `it's`
+    ,@rightPad
+    // a // b
+    (
+'\x00')
+    o repeatCount , }  packet Logon {  }packet	Logon //x
+{ repeat // " ++ [128512]%N ++ runes_of_ascii " emoji
+uint16 u128
+    //
+    `a\`,
+falsey
+@calculatedFrom(""packet"" , )
+    } 	 ")).
+Eval vm_compute in ("<<<M1624>>>" ++ check (runes_of_ascii "// 50% %s
+packet	a1
+    { zchar[
+// a // b
+// 50% %s
+007]
+T `it's`
+    ,@rightPad
+    // a // b
+    (
+'\x00')
+    o repeatCount , }  packet Logon {  }u32	Logon //x
+{ repeat // " ++ [128512]%N ++ runes_of_ascii " emoji
+uint16 u128
+    //
+    `a\`,
+falsey
+@calculatedFrom(""packet"" ) ,
+    } 	 ")).
+Eval vm_compute in ("<<<M3617>>>" ++ check (runes_of_ascii "  root
+packet
+zchar {  @calculatedFrom( ""\" ++ [233]%N ++ runes_of_ascii """
+) 
+@rightPad 
+(
+
+// a // b
+)
+	@rightPad	('\x00')
+    int8
+
+Foo
+,	}packet  calculatedFrom{
+u8x
+    `doc` ,  }  MetaData
+
+x
+{
+
+}	options{ repeatCount
+
+    =
+
+    ""x y""
+	;leftPad =
+
+""" ++ [128512]%N ++ runes_of_ascii """
+    tag=
+
+uint8}
+//	t
+")).
+Eval vm_compute in ("<<<M3788>>>" ++ check (runes_of_ascii "packet metadata {
+    // trailing space 
+    roots uint8x,
+    @leftPad()
+    zchar[3] Header,
+    i64_ roots,
+    @lengthOf(A)
+    // " ++ [128512]%N ++ runes_of_ascii " emoji
+    @lengthOf(pack)
+    @lengthOf(calculatedFrom)
+    // trailing space 
+    u8 charz `crlf
+    line`,
+}")).
+Eval vm_compute in ("<<<M229>>>" ++ check (runes_of_ascii "packet As{  zchar[3 ]
+    o @lengthOf(
+    // trailing space 
+    Header)`doc` , repeat char[] string_ , @tag(1 )
+match BodyLength
+    //	t
+    as msg_type
+{ """ ++ [28040; 24687]%N ++ runes_of_ascii """  :u8x, }
+,  @tag(255 )repeat char[] crc
+    // `tick` ""quote"" 'q'
+    , }
+")).
+Eval vm_compute in ("<<<M3772>>>" ++ check (runes_of_ascii "root packet falsey {
+    string stringy `tab	here`,
+    repeat float As,
+    char[] Packet,
+    i8 body @lengthOf(T),
+    repeat A `a\`,
+    u8x @calculatedFrom(""\" ++ [233]%N ++ runes_of_ascii """) `tab	here`,
+    float,
+    char[42] i8i8 `u8 x,`,// a // b
+}")).
+Eval vm_compute in ("<<<M471>>>" ++ check (runes_of_ascii "packet
+metadata { // " ++ [27880; 37322]%N ++ runes_of_ascii "
+f64 u8x	,u16
+    o `tab	here` , msg_type
+    { u8 a1 @lengthOf( u
+// c
+// @lengthOf(
+)
+    `tab	here` , } , char[65535
+] crc
+@calculatedFrom( ""CRC32"") ,
+    }
+    MetaData Logon{ msg_type x ,  }")).
+Eval vm_compute in ("<<<M4465>>>" ++ check (runes_of_ascii "packet A {
+    match k as n {
+        ""x\
+                y"" : B,
+        [""x\
+                y"", 1] : C,
+        [
+            1, 2, 3, 4, 5,
+            ""x\
+                        y""
+        ] : D,
+    },
+}")).
+Eval vm_compute in ("<<<M1655>>>" ++ check (runes_of_ascii "// 50% %s
+packet	a1
+    { zchar[
+// a // b
+// 50% %s
+007]
+T `it's`
+    ,@rightPad
+    // a // b
+    (
+'\x00')
+    o repeatCount , }  packet Logon {  }packet	Logon //x
+{ repeat // " ++ [128512]%N ++ runes_of_ascii " emoji
+uint16 u128")).
+Eval vm_compute in ("<<<M4174>>>" ++ check (runes_of_ascii "packet pack {
+    match options1 as trueish {
+        10 : packetx,
+        [""a\\"", 00, 007, 00] : f32a,
+        [0123456789, ""it's"", ""a\\""] : body,
+    },
+    a1 `it's`,
+    repeat A,
+}
+//	t")).
+Eval vm_compute in ("<<<M495>>>" ++ check (runes_of_ascii "options { lengthOf =
+    uint32 // packet A { u8 x, }
+zchar
+=
+/// triple
+//x
+true
+/// triple
+//
+; lengthOf =0123456789
+tag = ""it's"" // " ++ [27880; 37322]%N ++ runes_of_ascii "
+;matchKey =
+zchar[ 255
+    //x
+    ]}
+")).
+Eval vm_compute in ("<<<M112>>>" ++ check (runes_of_ascii "options {
+body ='\x00' u128 =
+    i16 ; float = // packet A { u8 x, }
+zchar[
+65535 ]
+; Z9_ =
+""// no comment"" trueish
+=// packet A { u8 x, }
+false } // packet A { u8 x, }")).
+Eval vm_compute in ("<<<M3889>>>" ++ check (runes_of_ascii "root 
+packet
+    rootA
+
+    {
+
+@tag(
+
+    7)@calculatedFrom( ""`tick`"")a1 
+    // packet A { u8 x, }
+  @calculatedFrom(""" ++ [28040; 24687]%N ++ runes_of_ascii """
+	)	, 
+
+// packet A { u8 x, }
+
+//x
+
+}
+")).
+Eval vm_compute in ("<<<M635>>>" ++ check (runes_of_ascii "root
+    packet float{  repeat
+    i8i8 { pack , }
+    , f64
+uint8x ,	}	packet chars { } root //	t
+packet
+    float { tag @lengthOf(
+T
+    )
+`tab	here`
+, }")).
+Eval vm_compute in ("<<<M2047>>>" ++ check (runes_of_ascii "MetaData MetaData BodyLength
+{ int8 Foo
+, string
+    MetaDataX , float zchar ,pack options1
+,asx string_, }
+packet u8x {Foo@lengthOf(charz )
+`" ++ [28040; 24687; 31867; 22411]%N ++ runes_of_ascii "`,  }
+")).
+Eval vm_compute in ("<<<M0>>>" ++ check (runes_of_ascii "packet uint8x {	@calculatedFrom(""a	b""
+) i32
+//
+// " ++ [128512]%N ++ runes_of_ascii " emoji
+charz ,
+    match
+x //x
+as	x
+{ ""a	b"":  lengthOf
+,}, leftPad `// not a comment`
+    , }
+")).
+Eval vm_compute in ("<<<M2158>>>" ++ check (runes_of_ascii "MetaData BodyLength
+{ int8 Foo
+, string
+    MetaDataX , float zchar ,pack options1
+,asx string_, }
+packet u8x {int32@lengthOf(charz )
+`" ++ [28040; 24687; 31867; 22411]%N ++ runes_of_ascii "`,  }
+")).
+Eval vm_compute in ("<<<M3353>>>" ++ check (runes_of_ascii "// top
+root
+    // c0
+packet
+    // c1
+P { // c3a
+  // c3b
+char // c4
+c // c5a
+  // c5b
+, // c6
+u8 // c7a
+  // c7b
+x // c8
+, // c9
+}
+    // c10
+")).
+Eval vm_compute in ("<<<M2167>>>" ++ check (runes_of_ascii "MetaData BodyLength
+{ int8 Foo
+, string
+    MetaDataX , float zchar ,pack options1
+,asx string_, }
+packet u8x {Foo@lengthOf() charz
+`" ++ [28040; 24687; 31867; 22411]%N ++ runes_of_ascii "`,  }
+")).
+Eval vm_compute in ("<<<M4456>>>" ++ check (runes_of_ascii "MetaData pack {
+    u8 _x,
+    //	t
+    zchar uint8x `two words`,
+    chars i8i8,
+}
+
+MetaData chars {
+    //
+    i64 pack ``,
+}
+
+packet _x {
+}")).
+Eval vm_compute in ("<<<M2178>>>" ++ check (runes_of_ascii "MetaData BodyLength
+{ int8 Foo
+, string
+    MetaDataX , float zchar ,pack options1
+,asx string_, }
+packet u8x {Foo@lengthOf(charz )
+007,  }
+")).
+Eval vm_compute in ("<<<M48>>>" ++ check (runes_of_ascii "// c
+MetaData Packet { i8i8 repeatCount , calculatedFrom
+falsey `
+` // 50% %s
+, float32
+tag//
+,string Packet `line1
+line2`
+    ,	}
+// c
+")).
+Eval vm_compute in ("<<<M2044>>>" ++ check (runes_of_ascii "
+packet leftPad {
+@leftPad( '0')
+u32
+caf" ++ [233]%N ++ runes_of_ascii "_1 `100% of %d` ,repeat// 50% %s
+i8 chars
+    ,
+} MetaData
+    f32a
+{ // packet A { u8 x, }
+}")).
+Eval vm_compute in ("<<<M2035>>>" ++ check (runes_of_ascii "
+packet leftPad {
+@leftPad#( '0')
+u32
+i64_ `100% of %d` ,repeat// 50% %s
+i8 chars
+    ,
+} MetaData
+    f32a
+{ // packet A { u8 x, }
+}")).
+Eval vm_compute in ("<<<M1963>>>" ++ check (runes_of_ascii "
+packet leftPad {
+@leftPad( '0')
+i64_
+u32 `100% of %d` ,repeat// 50% %s
+i8 chars
+    ,
+} MetaData
+    f32a
+{ // packet A { u8 x, }
+}")).
+Eval vm_compute in ("<<<M2280>>>" ++ check (runes_of_ascii "options
+    {
+x_y_z// " ++ [27880; 37322]%N ++ runes_of_ascii "
+= 10 ; }
+packet body {
+    @calculatedFrom(
+// trailing space 
+// " ++ [27880; 37322]%N ++ runes_of_ascii "
+""1""
+)	match as T Foo
+    {
+255 :T , }
+,}")).
+Eval vm_compute in ("<<<M2233>>>" ++ check (runes_of_ascii "options
+    {
+x_y_z// " ++ [27880; 37322]%N ++ runes_of_ascii "
+= 10  }
+packet body {
+    @calculatedFrom(
+// trailing space 
+// " ++ [27880; 37322]%N ++ runes_of_ascii "
+""1""
+)	match T as Foo
+    {
+255 :T , }
+,}")).
+Eval vm_compute in ("<<<M1951>>>" ++ check (runes_of_ascii "
+packet leftPad {
+@leftPad( )
+u32
+i64_ `100% of %d` ,repeat// 50% %s
+i8 chars
+    ,
+} MetaData
+    f32a
+{ // packet A { u8 x, }
+}")).
+Eval vm_compute in ("<<<M2429>>>" ++ check (runes_of_ascii "MetaData
+    calculatedFrom
+{ zchar[  10 ]
+    As`tab	here`,
+    }// trailing space 
+options  { roots = ='\x00' ; } packet A
+{ }
+")).
+Eval vm_compute in ("<<<M2006>>>" ++ check (runes_of_ascii "
+packet leftPad {
+@leftPad( '0')
+u32
+i64_ `100% of %d` ,repeat// 50% %s
+i8 chars
+    ,
+} 
+    f32a
+{ // packet A { u8 x, }
+}")).
+Eval vm_compute in ("<<<M1255>>>" ++ check (runes_of_ascii "packet chars {@tag( //	t
+007 ) roots
+    zchar , } packet
+MetaDataX  { }
+// 50% %s
+// packet A { u8 x, }
+MetaData
+int { }
+")).
+Eval vm_compute in ("<<<M4213>>>" ++ check (runes_of_ascii "MetaData leftPad {
+    uint64 tag `{ , }`,
+    i64 chars `
+        `,
+}
+
+packet MetaDataX {
+    char[0] x `100% of %d`,
+}")).
+Eval vm_compute in ("<<<M1885>>>" ++ check (runes_of_ascii "packet o {
+    roots `it's`
+// trailing space 
+//x
+, char[ 42
+    ]  A, // " ++ [27880; 37322]%N ++ runes_of_ascii "
+uint64
+repeatCount
+    `crlf
+line`
+,}")).
+Eval vm_compute in ("<<<M4331>>>" ++ check (runes_of_ascii "packet leftPad {
+    @leftPad('0')
+    u32 i64_,
+    repeat i8 chars,
+}
+
+MetaData f32a {
+    // packet A { u8 x, }
+}")).
+Eval vm_compute in ("<<<M1869>>>" ++ check (runes_of_ascii "packet o {
+    roots `it's`
+// trailing space 
+//x
+, char[ 42
+    A  ], // " ++ [27880; 37322]%N ++ runes_of_ascii "
+f64
+repeatCount
+    `crlf
+line`
+,}")).
+Eval vm_compute in ("<<<M4273>>>" ++ check (runes_of_ascii "
+packet
+
+    A {  match k	as
+	n
+	{
+	[
+
+    ""a"", ""bb""
+	, ""c c""
+,
+
+""d""
+
+    , 
+""e""
+	]
+
+: B
+2 : 
+C }
+    ,
+	} ")).
+Eval vm_compute in ("<<<M1580>>>" ++ check (runes_of_ascii "// 50% %s
+packet	a1
+    { zchar[
+// a // b
+// 50% %s
+007]
+T `it's`
+    ,@rightPad
+    // a // b
+    (
+'\x00'")).
+Eval vm_compute in ("<<<M2996>>>" ++ check (runes_of_ascii "packet A {
+  match k as n {
+    [""a"", ""bb"", 007, ""d"", ""e"", 66, ""g"", ""h"", 9, ""j"", ""k""] : B,
+    2 : C
+  },
+}")).
+Eval vm_compute in ("<<<M2992>>>" ++ check (runes_of_ascii "packet A {
+  match k as n {
+    [""a"", 22, ""c c"", 4, ""e"", 66, ""g"", 8, ""i"", 10, ""k""] : B,
+    2 : C
+  },
+}")).
+Eval vm_compute in ("<<<M1908>>>" ++ check (runes_of_ascii "packet o {
+    roots `it's`
+// trailing space 
+//x
+, char[ 42
+    ]  A, // " ++ [27880; 37322]%N ++ runes_of_ascii "
+f64
+repeatCount
+    `c")).
+Eval vm_compute in ("<<<M3747>>>" ++ check (runes_of_ascii "root packet falsey {
+    int falsey,
+    u8 Packet @lengthOf(f32a) `u8 x,`,
+}// `tick` ""quote"" 'q'")).
+Eval vm_compute in ("<<<M3823>>>" ++ check (runes_of_ascii "
+//
+      options { 
+}  packet  leftPad
+{
+
+}
+packet
+trueish 
+{i8 pack ,
+	}
+packet  body  { }
+")).
+Eval vm_compute in ("<<<M849>>>" ++ check (runes_of_ascii "packet
+a1 { @tag( 1
+) rootA@calculatedFrom( ""a	b""
+)	, // " ++ [128512]%N ++ runes_of_ascii " emoji
+}options {lengthOf = i8 }
+")).
+Eval vm_compute in ("<<<M1468>>>" ++ check (runes_of_ascii "packet
+T
+{ match repeatCount as	calculatedFrom
+{ [65535 ]	: : As	,
+} ,}
+// trailing space 
+")).
+Eval vm_compute in ("<<<M1788>>>" ++ check (runes_of_ascii "options{  lengthOf =//x
+i16;
+    BodyLength = 0 ; pack
+= false;
+    A MetaData char[ 3 ] }")).
+Eval vm_compute in ("<<<M1498>>>" ++ check (runes_of_ascii "packet
+T
+{ match repeatCount as	calculatedFrom
+{ [65535 ]	: As	,
+} ,}
+// trailing space 
+")).
+Eval vm_compute in ("<<<M2969>>>" ++ check (runes_of_ascii "packet A {
+  match k as n {
+    [1, 22, ""c c"", 4, 5, ""f"", 7, 8, ""i""] : B
+    2 : C
+  },
+}")).
+Eval vm_compute in ("<<<M2940>>>" ++ check (runes_of_ascii "packet A {
+  match k as n {
+    [""a"", 22, ""c c"", 4, ""e"", 66, ""g""] : B,
+    2 : C
+  },
+}")).
+Eval vm_compute in ("<<<M3795>>>" ++ check (runes_of_ascii "
+MetaData
+    uint8x { MetaDataX
+
+    // " ++ [128512]%N ++ runes_of_ascii " emoji
+	_x	,
+char[
+7
+
+]  pack `it's`
+, 
+}
+")).
+Eval vm_compute in ("<<<M1732>>>" ++ check (runes_of_ascii "options{  lengthOf =//x
+;i16
+    BodyLength = 0 ; pack
+= false;
+    A = char[ 3 ] }")).
+Eval vm_compute in ("<<<M1755>>>" ++ check (runes_of_ascii "options{  lengthOf =//x
+i16;
+    BodyLength = 0  pack
+= false;
+    A = char[ 3 ] }")).
+Eval vm_compute in ("<<<M1730>>>" ++ check (runes_of_ascii "options{  lengthOf =//x
+;
+    BodyLength = 0 ; pack
+= false;
+    A = char[ 3 ] }")).
+Eval vm_compute in ("<<<M1219>>>" ++ check (runes_of_ascii "// 50% %s
+packet rootA { @lengthOf( //	t
+x_y_z)
+repeat
+    charz
+matchKey	,	}
+")).
+Eval vm_compute in ("<<<M3263>>>" ++ check (runes_of_ascii "MetaData Foo { zchar[ 0 ] matchKey , } options // c
+{ lengthOf = i32 u = 00 ; }")).
+Eval vm_compute in ("<<<M1159>>>" ++ check (runes_of_ascii "MetaData uint8x{ MetaDataX
+    // " ++ [128512]%N ++ runes_of_ascii " emoji
+    _x
+, char[ 7 ] pack`it's`
+, }")).
+Eval vm_compute in ("<<<M211>>>" ++ check (runes_of_ascii "  packet  matchKey {@lengthOf( Pad ) repeat int16  trueish `two words` , }")).
+Eval vm_compute in ("<<<M2908>>>" ++ check (runes_of_ascii "packet A {
+  match k as n {
+    [1, 22, 007, 4, 5] : B,
+    2 : C
+  },
+}")).
+Eval vm_compute in ("<<<M2892>>>" ++ check (runes_of_ascii "packet A {
+  match k as n {
+    [""a"", ""bb"", 007] : B,
+    2 : C
+  },
+}")).
+Eval vm_compute in ("<<<M4212>>>" ++ check (runes_of_ascii "
+
+  MetaData
+    M
+    {
+	u8
+
+    x 
+`a
+b` 
+,T t  `a
+b`
+	,
+    }
 
 ")).
-Eval vm_compute in ("<<<M487>>>" ++ check (runes_of_ascii "root")).
+Eval vm_compute in ("<<<M3756>>>" ++ check (runes_of_ascii "  packet
+x_y_z{
+
+body { // " ++ [128512]%N ++ runes_of_ascii " emoji
+_x BodyLength , }
+
+    ,	}
+")).
+Eval vm_compute in ("<<<M1779>>>" ++ check (runes_of_ascii "options{  lengthOf =//x
+i16;
+    BodyLength = 0 ; pack
+= false")).
+Eval vm_compute in ("<<<M2873>>>" ++ check (runes_of_ascii "packet A {
+  match k as n {
+    [1, 22] : B,
+    2 : C
+  },
+}")).
+Eval vm_compute in ("<<<M781>>>" ++ check (runes_of_ascii "options { charz =
+    false
+    ; uint8x =	'0'
+    ; } // " ++ [27880; 37322]%N)).
+Eval vm_compute in ("<<<M4453>>>" ++ check (runes_of_ascii "MetaData M {
+    u8 x `tab
+    	x`,
+    T t `tab
+    	x`,
+}")).
+Eval vm_compute in ("<<<M1980>>>" ++ check (runes_of_ascii "
+packet leftPad {
+@leftPad( '0')
+u32
+i64_ `100% of %d`")).
+Eval vm_compute in ("<<<M2025>>>" ++ check (runes_of_ascii "
+packet leftPad {
+@leftPad( '0')
+u32
+i64_ `100% of ")).
+Eval vm_compute in ("<<<M3818>>>" ++ check (runes_of_ascii "options {
+    matchKey = ""x y"";
+    len = '\x00'
+}")).
+Eval vm_compute in ("<<<M1759>>>" ++ check (runes_of_ascii "options{  lengthOf =//x
+i16;
+    BodyLength = 0")).
+Eval vm_compute in ("<<<M3016>>>" ++ check (runes_of_ascii "MetaData M {
+    u8 x `a
+b`,
+    T t `a
+b`,
+}")).
+Eval vm_compute in ("<<<M3052>>>" ++ check (runes_of_ascii "MetaData M {
+    u8 x `
+x`,
+    T t `
+x`,
+}")).
+Eval vm_compute in ("<<<M3632>>>" ++ check (runes_of_ascii "  packet
+A  {
+    u8 x
+`d" ++ [8233]%N ++ runes_of_ascii "`
+
+,	// c" ++ [8233]%N ++ runes_of_ascii "
+}
+
+")).
+Eval vm_compute in ("<<<M2616>>>" ++ check (runes_of_ascii "packet A { match k as n { [1,] : B }, }")).
+Eval vm_compute in ("<<<M2614>>>" ++ check (runes_of_ascii "packet A { match k as n { 1 : B,, }, }")).
+Eval vm_compute in ("<<<M746>>>" ++ check (runes_of_ascii "
+options { trueish=char[ 255 ] ; }
+")).
+Eval vm_compute in ("<<<M61>>>" ++ check (runes_of_ascii "
+options{ Z9_ =7 ;zchar=	f64  ; }
+")).
+Eval vm_compute in ("<<<M2599>>>" ++ check (runes_of_ascii "packet A { x @calculatedFrom(c), }")).
+Eval vm_compute in ("<<<M1446>>>" ++ check (runes_of_ascii "packet
+T
+{ match repeatCount as")).
+Eval vm_compute in ("<<<M2726>>>" ++ check (runes_of_ascii "t" ++ [21; 14; 65533; 65533; 65533; 65533]%N ++ runes_of_ascii "" ++ [65533; 22]%N ++ runes_of_ascii "3" ++ [65533; 65533; 65533]%N ++ runes_of_ascii ")" ++ [65533; 65533; 65533; 65533; 65533; 8; 65533]%N ++ runes_of_ascii "y~" ++ [65533]%N ++ runes_of_ascii ":" ++ [65533; 65533; 65533]%N ++ runes_of_ascii "f" ++ [65533]%N)).
+Eval vm_compute in ("<<<M3124>>>" ++ check (runes_of_ascii "packet A {
+ u8 x `d" ++ [8202]%N ++ runes_of_ascii "`, // c" ++ [8202]%N ++ runes_of_ascii "
+}")).
+Eval vm_compute in ("<<<M260>>>" ++ check (runes_of_ascii "
+packet Header {
+As `" ++ [233]%N ++ runes_of_ascii "` , }
+")).
+Eval vm_compute in ("<<<M1856>>>" ++ check (runes_of_ascii "packet o {
+    roots `it's`")).
+Eval vm_compute in ("<<<M2840>>>" ++ check (runes_of_ascii "P@" ++ [65533; 65533; 65533; 65533]%N ++ runes_of_ascii "hB" ++ [65533]%N ++ runes_of_ascii "B" ++ [65533; 65533; 65533; 65533; 65533]%N ++ runes_of_ascii "F}" ++ [0; 65533; 65533; 65533]%N ++ runes_of_ascii "a
+" ++ [65533]%N ++ runes_of_ascii "O" ++ [65533]%N)).
+Eval vm_compute in ("<<<M2672>>>" ++ check (runes_of_ascii "options { a = char[x]; }")).
+Eval vm_compute in ("<<<M497>>>" ++ check (runes_of_ascii "packet lengthOf{
+    }")).
+Eval vm_compute in ("<<<M3185>>>" ++ check (runes_of_ascii "// a// bpacket A {}")).
+Eval vm_compute in ("<<<M2227>>>" ++ check (runes_of_ascii "options
+    {
+x_y_z")).
+Eval vm_compute in ("<<<M2761>>>" ++ check (runes_of_ascii "?" ++ [65533]%N ++ runes_of_ascii "Nl" ++ [65533; 65533]%N ++ runes_of_ascii "0" ++ [65533; 65533]%N ++ runes_of_ascii "jP" ++ [65533; 25]%N ++ runes_of_ascii "\" ++ [1549; 65533]%N ++ runes_of_ascii "*%")).
+Eval vm_compute in ("<<<M3167>>>" ++ check (runes_of_ascii "packet A {
+}
+// c" ++ [65279]%N)).
+Eval vm_compute in ("<<<M3115>>>" ++ check (runes_of_ascii "packet A {
+}// c" ++ [8192]%N)).
+Eval vm_compute in ("<<<M2809>>>" ++ check (runes_of_ascii "b?JK7Y2K@U~\>c6Y")).
+Eval vm_compute in ("<<<M4131>>>" ++ check (runes_of_ascii "packet crc {
+}")).
+Eval vm_compute in ("<<<M2191>>>" ++ check (runes_of_ascii "MetaData Bo")).
+Eval vm_compute in ("<<<M2831>>>" ++ check (runes_of_ascii "true int8")).
+Eval vm_compute in ("<<<M2808>>>" ++ check (runes_of_ascii "%x" ++ [65533]%N ++ runes_of_ascii "[" ++ [65533; 65533; 30]%N)).
+Eval vm_compute in ("<<<M2437>>>" ++ check (runes_of_ascii "chars")).
+Eval vm_compute in ("<<<M3131>>>" ++ check (runes_of_ascii "// c" ++ [8233]%N)).
+Eval vm_compute in ("<<<M2770>>>" ++ check (runes_of_ascii "BkEi")).
+Eval vm_compute in ("<<<M2558>>>" ++ check (runes_of_ascii "a" ++ [160]%N ++ runes_of_ascii "b")).
+Eval vm_compute in ("<<<M2451>>>" ++ check (runes_of_ascii "u")).
